@@ -1,0 +1,850 @@
+//go:build verif
+
+// Contracts for package trie (property C09, and C01/C02 for the locking).
+// Comment-only file: it is read by /verif/gvc and is never compiled into the library.
+//
+// Ghost views of a ternary search tree (passed as ghost parameters):
+//   repr[m]  the set of node objects of the subtree rooted at m (dynamic frame)
+//   S[m]     the set of complete keys stored in that subtree
+//   dep[m]   the index of the key byte that m.c is compared with
+//   wit[m]   some key of S[m]: all keys of S[m] agree with it on their first dep[m] bytes
+//   term[m]  for a node with isValid, the key that ends there
+//   vm       the map from stored keys to their values
+package trie
+
+//@ pred agree(a K, b K, d int) := forall j int :: { a[j] } { b[j] } 0 <= j && j < d ==> a[j] == b[j]
+//@ pred nsubset(a set[*node], b set[*node]) := forall x *node :: { x in a } x in a ==> x in b
+//@ pred ssubset(a set[K], b set[K]) := forall k K :: { k in a } k in a ==> k in b
+//@ pred tl1(m *node, repr map[*node]set[*node], S map[*node]set[K], term map[*node]K, wit map[*node]K, dep map[*node]int, vm map[K]V) := dep[m] >= 0 && wit[m] in S[m]
+//@ pred tl2(m *node, repr map[*node]set[*node], S map[*node]set[K], term map[*node]K, wit map[*node]K, dep map[*node]int, vm map[K]V) := forall k K :: { k in S[m] } k in S[m] ==> strwf(k) && len(k) > dep[m] && agree(k, wit[m], dep[m])
+//@ pred tl3(m *node, repr map[*node]set[*node], S map[*node]set[K], term map[*node]K, wit map[*node]K, dep map[*node]int, vm map[K]V) := forall k K :: { k in S[m] } { k in S[m.left] } { k in S[m.right] } { k in S[m.mid] } k in S[m] <==> ((m.left != nil && k in S[m.left]) || (m.right != nil && k in S[m.right]) || (m.mid != nil && k in S[m.mid]) || (m.isValid && k == term[m]))
+//@ pred tl4(m *node, repr map[*node]set[*node], S map[*node]set[K], term map[*node]K, wit map[*node]K, dep map[*node]int, vm map[K]V) := m.left != nil ==> dep[m.left] == dep[m] && forall k K :: { k in S[m.left] } k in S[m.left] ==> k[dep[m]] < m.c
+//@ pred tl5(m *node, repr map[*node]set[*node], S map[*node]set[K], term map[*node]K, wit map[*node]K, dep map[*node]int, vm map[K]V) := m.right != nil ==> dep[m.right] == dep[m] && forall k K :: { k in S[m.right] } k in S[m.right] ==> k[dep[m]] > m.c
+//@ pred tl6(m *node, repr map[*node]set[*node], S map[*node]set[K], term map[*node]K, wit map[*node]K, dep map[*node]int, vm map[K]V) := m.mid != nil ==> dep[m.mid] == dep[m] + 1 && forall k K :: { k in S[m.mid] } k in S[m.mid] ==> k[dep[m]] == m.c
+//@ pred tl7(m *node, repr map[*node]set[*node], S map[*node]set[K], term map[*node]K, wit map[*node]K, dep map[*node]int, vm map[K]V) := m.isValid ==> len(term[m]) == dep[m] + 1 && term[m][dep[m]] == m.c && m.val == vm[term[m]]
+//@ pred tlocal(m *node, repr map[*node]set[*node], S map[*node]set[K], term map[*node]K, wit map[*node]K, dep map[*node]int, vm map[K]V) := tl1(m, repr, S, term, wit, dep, vm) && tl2(m, repr, S, term, wit, dep, vm) && tl3(m, repr, S, term, wit, dep, vm) && tl4(m, repr, S, term, wit, dep, vm) && tl5(m, repr, S, term, wit, dep, vm) && tl6(m, repr, S, term, wit, dep, vm) && tl7(m, repr, S, term, wit, dep, vm)
+//@ pred tshape(m *node, repr map[*node]set[*node]) := m in repr[m] && (m.left != nil ==> m.left in repr[m] && !(m in repr[m.left])) && (m.mid != nil ==> m.mid in repr[m] && !(m in repr[m.mid])) && (m.right != nil ==> m.right in repr[m] && !(m in repr[m.right])) && (m.left != nil && m.mid != nil ==> forall x *node :: { x in repr[m.left] } !(x in repr[m.left] && x in repr[m.mid])) && (m.left != nil && m.right != nil ==> forall x *node :: { x in repr[m.left] } !(x in repr[m.left] && x in repr[m.right])) && (m.mid != nil && m.right != nil ==> forall x *node :: { x in repr[m.mid] } !(x in repr[m.mid] && x in repr[m.right])) && (forall x *node :: { x in repr[m] } x in repr[m] <==> (x == m || (m.left != nil && x in repr[m.left]) || (m.mid != nil && x in repr[m.mid]) || (m.right != nil && x in repr[m.right])))
+//@ pred tvalid(n *node, repr map[*node]set[*node], S map[*node]set[K], term map[*node]K, wit map[*node]K, dep map[*node]int, vm map[K]V) := n != nil && n in repr[n] && !(nil in repr[n]) && forall m *node :: { m in repr[n] } m in repr[n] ==> allocated(m) && tshape(m, repr) && tlocal(m, repr, S, term, wit, dep, vm) && nsubset(repr[m], repr[n]) && (forall o *node :: { o in repr[m] } o in repr[m] ==> nsubset(repr[o], repr[m])) && ssubset(S[m], S[n]) && (forall o *node :: { o in repr[m] } o in repr[m] ==> ssubset(S[o], S[m]))
+
+//@ pred toutside(n *node, repr map[*node]set[*node], S map[*node]set[K], term map[*node]K, wit map[*node]K, dep map[*node]int, nrepr map[*node]set[*node], nS map[*node]set[K], nterm map[*node]K, nwit map[*node]K, ndep map[*node]int) := forall x *node :: { x in repr[n] } { nrepr[x] } { nS[x] } !(n != nil && x in repr[n]) && old(allocated(x)) ==> x.left == old(x.left) && x.mid == old(x.mid) && x.right == old(x.right) && x.isValid == old(x.isValid) && x.val == old(x.val) && nrepr[x] == repr[x] && nS[x] == S[x] && nterm[x] == term[x] && nwit[x] == wit[x] && ndep[x] == dep[x]
+
+//@ func (*trie.node).get
+//@   property C09 C01
+//@   opt nil-receiver
+//@   ghost-param repr map[*node]set[*node]
+//@   ghost-param S map[*node]set[K]
+//@   ghost-param term map[*node]K
+//@   ghost-param wit map[*node]K
+//@   ghost-param dep map[*node]int
+//@   ghost-param vm map[K]V
+//@   requires ErrorNotFound != nil && d >= 0 && (len(key) == 0 || d < len(key))
+//@   requires n != nil ==> tvalid(n, repr, S, term, wit, dep, vm)
+//@   requires n != nil ==> dep[n] == d
+//@   requires n != nil ==> agree(key, wit[n], d)
+//@   ensures n == nil || len(key) == 0 ==> result0 == nil && result1 != nil
+//@   ensures result0 == nil <==> result1 != nil
+//@   assert n != nil && len(key) > 0 && key[d] < n.c ==> ((result0 != nil && result0.isValid) <==> key in S[n])
+//@   assert n != nil && len(key) > 0 && key[d] > n.c ==> ((result0 != nil && result0.isValid) <==> key in S[n])
+//@   assert n != nil && len(key) > 0 && key[d] == n.c && d < len(key) - 1 ==> ((result0 != nil && result0.isValid) <==> key in S[n])
+//@   assert n != nil && len(key) > 0 && key[d] == n.c && d == len(key) - 1 && n.isValid ==> streq(term[n], key)
+//@   assert n != nil && len(key) > 0 && key[d] == n.c && d == len(key) - 1 ==> ((result0 != nil && result0.isValid) <==> key in S[n])
+//@   ensures n != nil && len(key) > 0 ==> ((result0 != nil && result0.isValid) <==> key in S[n])
+//@   ensures result0 != nil ==> result0 in repr[n] && (result0.isValid ==> term[result0] == key && result0.val == vm[key])
+//@   call get#1 ghost repr = repr; S = S; term = term; wit = wit; dep = dep; vm = vm
+//@   call get#2 ghost repr = repr; S = S; term = term; wit = wit; dep = dep; vm = vm
+//@   call get#3 ghost repr = repr; S = S; term = term; wit = wit; dep = dep; vm = vm
+
+// BEGIN put
+//@ func (*trie.node).put
+//@   property C09 C01
+//@   opt nil-receiver
+//@   opt group-hyps
+//@   opt path-hyps
+//@   lock t.mu : W
+//@   ghost-param repr map[*node]set[*node]
+//@   ghost-param S map[*node]set[K]
+//@   ghost-param term map[*node]K
+//@   ghost-param wit map[*node]K
+//@   ghost-param dep map[*node]int
+//@   ghost-param vm map[K]V
+//@   ghost nrepr map[*node]set[*node] = repr
+//@   ghost nS map[*node]set[K] = S
+//@   ghost nterm map[*node]K = term
+//@   ghost nwit map[*node]K = wit
+//@   ghost ndep map[*node]int = dep
+//@   requires t != nil && isValid && d >= 0 && d < len(key)
+//@   requires n != nil ==> tvalid(n, repr, S, term, wit, dep, vm)
+//@   requires n != nil ==> dep[n] == d && agree(key, wit[n], d)
+//@   modifies all trie.node.left, all trie.node.mid, all trie.node.right, all trie.node.isValid, all trie.Item.val
+//@   exit-ghost nterm = (key[d] == result.c && d >= len(key) - 1 ? store(nterm, result, key) : nterm)
+//@   exit-ghost nwit = store(nwit, result, key)
+//@   exit-ghost ndep = store(ndep, result, d)
+//@   exit-ghost nrepr = store(nrepr, result, lambda x *node :: (x == result || (result.left != nil && x in nrepr[result.left]) || (result.mid != nil && x in nrepr[result.mid]) || (result.right != nil && x in nrepr[result.right])))
+//@   exit-ghost nS = store(nS, result, lambda k K :: ((result.left != nil && k in nS[result.left]) || (result.mid != nil && k in nS[result.mid]) || (result.right != nil && k in nS[result.right]) || (result.isValid && k == nterm[result])))
+//@   assert n != nil && key[d] < n.c && old(n.left) == nil ==> (result == n && result.left != nil && fresh(result.left) && result.mid == old(n.mid) && result.right == old(n.right) && result.isValid == old(n.isValid) && result.val == old(n.val))
+//@   assert n != nil && key[d] < n.c && old(n.left) == nil ==> (result.left != nil ==> !(result in nrepr[result.left]) && !(nil in nrepr[result.left]))
+//@   assert n != nil && key[d] < n.c && old(n.left) == nil ==> (n.mid != nil ==> !(result in repr[n.mid]) && !(nil in repr[n.mid]))
+//@   assert n != nil && key[d] < n.c && old(n.left) == nil ==> (n.right != nil ==> !(result in repr[n.right]) && !(nil in repr[n.right]))
+//@   assert n != nil && key[d] < n.c && old(n.left) == nil ==> (n.mid != nil ==> !(key in S[n.mid]))
+//@   assert n != nil && key[d] < n.c && old(n.left) == nil ==> (forall m *node :: { m in repr[n.mid] } n.mid != nil && m in repr[n.mid] && m.isValid ==> term[m] in S[m] && term[m] in S[n.mid] && term[m] != key)
+//@   assert n != nil && key[d] < n.c && old(n.left) == nil ==> (n.right != nil ==> !(key in S[n.right]))
+//@   assert n != nil && key[d] < n.c && old(n.left) == nil ==> (forall m *node :: { m in repr[n.right] } n.right != nil && m in repr[n.right] && m.isValid ==> term[m] in S[m] && term[m] in S[n.right] && term[m] != key)
+//@   assert n != nil && key[d] < n.c && old(n.left) == nil ==> (forall m *node :: { m in nrepr[result] } m in nrepr[result] && m != result ==> ((result.left != nil && m in nrepr[result.left]) || (n.mid != nil && m in repr[n.mid]) || (n.right != nil && m in repr[n.right])))
+//@   assert n != nil && key[d] < n.c && old(n.left) != nil ==> (result == n && result.left == old(n.left) && result.mid == old(n.mid) && result.right == old(n.right) && result.isValid == old(n.isValid) && result.val == old(n.val))
+//@   assert n != nil && key[d] < n.c && old(n.left) != nil ==> (result.left != nil ==> !(result in nrepr[result.left]) && !(nil in nrepr[result.left]))
+//@   assert n != nil && key[d] < n.c && old(n.left) != nil ==> (n.mid != nil ==> !(result in repr[n.mid]) && !(nil in repr[n.mid]))
+//@   assert n != nil && key[d] < n.c && old(n.left) != nil ==> (n.right != nil ==> !(result in repr[n.right]) && !(nil in repr[n.right]))
+//@   assert n != nil && key[d] < n.c && old(n.left) != nil ==> (n.mid != nil ==> !(key in S[n.mid]))
+//@   assert n != nil && key[d] < n.c && old(n.left) != nil ==> (forall m *node :: { m in repr[n.mid] } n.mid != nil && m in repr[n.mid] && m.isValid ==> term[m] in S[m] && term[m] in S[n.mid] && term[m] != key)
+//@   assert n != nil && key[d] < n.c && old(n.left) != nil ==> (n.right != nil ==> !(key in S[n.right]))
+//@   assert n != nil && key[d] < n.c && old(n.left) != nil ==> (forall m *node :: { m in repr[n.right] } n.right != nil && m in repr[n.right] && m.isValid ==> term[m] in S[m] && term[m] in S[n.right] && term[m] != key)
+//@   assert n != nil && key[d] < n.c && old(n.left) != nil ==> (forall m *node :: { m in nrepr[result] } m in nrepr[result] && m != result ==> ((result.left != nil && m in nrepr[result.left]) || (n.mid != nil && m in repr[n.mid]) || (n.right != nil && m in repr[n.right])))
+//@   assert n != nil && key[d] > n.c && old(n.right) == nil ==> (result == n && result.right != nil && fresh(result.right) && result.mid == old(n.mid) && result.left == old(n.left) && result.isValid == old(n.isValid) && result.val == old(n.val))
+//@   assert n != nil && key[d] > n.c && old(n.right) == nil ==> (n.left != nil ==> !(result in repr[n.left]) && !(nil in repr[n.left]))
+//@   assert n != nil && key[d] > n.c && old(n.right) == nil ==> (n.mid != nil ==> !(result in repr[n.mid]) && !(nil in repr[n.mid]))
+//@   assert n != nil && key[d] > n.c && old(n.right) == nil ==> (result.right != nil ==> !(result in nrepr[result.right]) && !(nil in nrepr[result.right]))
+//@   assert n != nil && key[d] > n.c && old(n.right) == nil ==> (n.left != nil ==> !(key in S[n.left]))
+//@   assert n != nil && key[d] > n.c && old(n.right) == nil ==> (forall m *node :: { m in repr[n.left] } n.left != nil && m in repr[n.left] && m.isValid ==> term[m] in S[m] && term[m] in S[n.left] && term[m] != key)
+//@   assert n != nil && key[d] > n.c && old(n.right) == nil ==> (n.mid != nil ==> !(key in S[n.mid]))
+//@   assert n != nil && key[d] > n.c && old(n.right) == nil ==> (forall m *node :: { m in repr[n.mid] } n.mid != nil && m in repr[n.mid] && m.isValid ==> term[m] in S[m] && term[m] in S[n.mid] && term[m] != key)
+//@   assert n != nil && key[d] > n.c && old(n.right) == nil ==> (forall m *node :: { m in nrepr[result] } m in nrepr[result] && m != result ==> ((n.left != nil && m in repr[n.left]) || (n.mid != nil && m in repr[n.mid]) || (result.right != nil && m in nrepr[result.right])))
+//@   assert n != nil && key[d] > n.c && old(n.right) != nil ==> (result == n && result.left == old(n.left) && result.mid == old(n.mid) && result.right == old(n.right) && result.isValid == old(n.isValid) && result.val == old(n.val))
+//@   assert n != nil && key[d] > n.c && old(n.right) != nil ==> (n.left != nil ==> !(result in repr[n.left]) && !(nil in repr[n.left]))
+//@   assert n != nil && key[d] > n.c && old(n.right) != nil ==> (n.mid != nil ==> !(result in repr[n.mid]) && !(nil in repr[n.mid]))
+//@   assert n != nil && key[d] > n.c && old(n.right) != nil ==> (result.right != nil ==> !(result in nrepr[result.right]) && !(nil in nrepr[result.right]))
+//@   assert n != nil && key[d] > n.c && old(n.right) != nil ==> (n.left != nil ==> !(key in S[n.left]))
+//@   assert n != nil && key[d] > n.c && old(n.right) != nil ==> (forall m *node :: { m in repr[n.left] } n.left != nil && m in repr[n.left] && m.isValid ==> term[m] in S[m] && term[m] in S[n.left] && term[m] != key)
+//@   assert n != nil && key[d] > n.c && old(n.right) != nil ==> (n.mid != nil ==> !(key in S[n.mid]))
+//@   assert n != nil && key[d] > n.c && old(n.right) != nil ==> (forall m *node :: { m in repr[n.mid] } n.mid != nil && m in repr[n.mid] && m.isValid ==> term[m] in S[m] && term[m] in S[n.mid] && term[m] != key)
+//@   assert n != nil && key[d] > n.c && old(n.right) != nil ==> (forall m *node :: { m in nrepr[result] } m in nrepr[result] && m != result ==> ((n.left != nil && m in repr[n.left]) || (n.mid != nil && m in repr[n.mid]) || (result.right != nil && m in nrepr[result.right])))
+//@   assert n == nil && d < len(key) - 1 ==> (result != nil && fresh(result) && result.c == key[d] && result.left == nil && result.right == nil && result.mid != nil && fresh(result.mid) && !result.isValid)
+//@   assert n == nil && d < len(key) - 1 ==> (result.mid != nil ==> !(result in nrepr[result.mid]) && !(nil in nrepr[result.mid]))
+//@   assert n == nil && d < len(key) - 1 ==> (forall m *node :: { m in nrepr[result] } m in nrepr[result] && m != result ==> ((result.mid != nil && m in nrepr[result.mid])))
+//@   assert n != nil && key[d] == n.c && d < len(key) - 1 && old(n.mid) == nil ==> (result == n && result.mid != nil && fresh(result.mid) && result.left == old(n.left) && result.right == old(n.right) && result.isValid == old(n.isValid) && result.val == old(n.val))
+//@   assert n != nil && key[d] == n.c && d < len(key) - 1 && old(n.mid) == nil ==> (n.left != nil ==> !(result in repr[n.left]) && !(nil in repr[n.left]))
+//@   assert n != nil && key[d] == n.c && d < len(key) - 1 && old(n.mid) == nil ==> (result.mid != nil ==> !(result in nrepr[result.mid]) && !(nil in nrepr[result.mid]))
+//@   assert n != nil && key[d] == n.c && d < len(key) - 1 && old(n.mid) == nil ==> (n.right != nil ==> !(result in repr[n.right]) && !(nil in repr[n.right]))
+//@   assert n != nil && key[d] == n.c && d < len(key) - 1 && old(n.mid) == nil ==> (n.left != nil ==> !(key in S[n.left]))
+//@   assert n != nil && key[d] == n.c && d < len(key) - 1 && old(n.mid) == nil ==> (forall m *node :: { m in repr[n.left] } n.left != nil && m in repr[n.left] && m.isValid ==> term[m] in S[m] && term[m] in S[n.left] && term[m] != key)
+//@   assert n != nil && key[d] == n.c && d < len(key) - 1 && old(n.mid) == nil ==> (n.right != nil ==> !(key in S[n.right]))
+//@   assert n != nil && key[d] == n.c && d < len(key) - 1 && old(n.mid) == nil ==> (forall m *node :: { m in repr[n.right] } n.right != nil && m in repr[n.right] && m.isValid ==> term[m] in S[m] && term[m] in S[n.right] && term[m] != key)
+//@   assert n != nil && key[d] == n.c && d < len(key) - 1 && old(n.mid) == nil ==> (forall m *node :: { m in nrepr[result] } m in nrepr[result] && m != result ==> ((n.left != nil && m in repr[n.left]) || (result.mid != nil && m in nrepr[result.mid]) || (n.right != nil && m in repr[n.right])))
+//@   assert n != nil && key[d] == n.c && d < len(key) - 1 && old(n.mid) != nil ==> (result == n && result.left == old(n.left) && result.mid == old(n.mid) && result.right == old(n.right) && result.isValid == old(n.isValid) && result.val == old(n.val))
+//@   assert n != nil && key[d] == n.c && d < len(key) - 1 && old(n.mid) != nil ==> (n.left != nil ==> !(result in repr[n.left]) && !(nil in repr[n.left]))
+//@   assert n != nil && key[d] == n.c && d < len(key) - 1 && old(n.mid) != nil ==> (result.mid != nil ==> !(result in nrepr[result.mid]) && !(nil in nrepr[result.mid]))
+//@   assert n != nil && key[d] == n.c && d < len(key) - 1 && old(n.mid) != nil ==> (n.right != nil ==> !(result in repr[n.right]) && !(nil in repr[n.right]))
+//@   assert n != nil && key[d] == n.c && d < len(key) - 1 && old(n.mid) != nil ==> (n.left != nil ==> !(key in S[n.left]))
+//@   assert n != nil && key[d] == n.c && d < len(key) - 1 && old(n.mid) != nil ==> (forall m *node :: { m in repr[n.left] } n.left != nil && m in repr[n.left] && m.isValid ==> term[m] in S[m] && term[m] in S[n.left] && term[m] != key)
+//@   assert n != nil && key[d] == n.c && d < len(key) - 1 && old(n.mid) != nil ==> (n.right != nil ==> !(key in S[n.right]))
+//@   assert n != nil && key[d] == n.c && d < len(key) - 1 && old(n.mid) != nil ==> (forall m *node :: { m in repr[n.right] } n.right != nil && m in repr[n.right] && m.isValid ==> term[m] in S[m] && term[m] in S[n.right] && term[m] != key)
+//@   assert n != nil && key[d] == n.c && d < len(key) - 1 && old(n.mid) != nil ==> (forall m *node :: { m in nrepr[result] } m in nrepr[result] && m != result ==> ((n.left != nil && m in repr[n.left]) || (result.mid != nil && m in nrepr[result.mid]) || (n.right != nil && m in repr[n.right])))
+//@   assert n == nil && d >= len(key) - 1 ==> (result != nil && fresh(result) && result.c == key[d] && result.left == nil && result.right == nil && result.mid == nil && result.isValid && result.val == val)
+//@   assert n == nil && d >= len(key) - 1 ==> (forall m *node :: { m in nrepr[result] } m in nrepr[result] && m != result ==> (false))
+//@   assert n != nil && key[d] == n.c && d >= len(key) - 1 ==> (result == n && result.left == old(n.left) && result.mid == old(n.mid) && result.right == old(n.right) && result.isValid && result.val == val)
+//@   assert n != nil && key[d] == n.c && d >= len(key) - 1 ==> (n.left != nil ==> !(result in repr[n.left]) && !(nil in repr[n.left]))
+//@   assert n != nil && key[d] == n.c && d >= len(key) - 1 ==> (n.mid != nil ==> !(result in repr[n.mid]) && !(nil in repr[n.mid]))
+//@   assert n != nil && key[d] == n.c && d >= len(key) - 1 ==> (n.right != nil ==> !(result in repr[n.right]) && !(nil in repr[n.right]))
+//@   assert n != nil && key[d] == n.c && d >= len(key) - 1 ==> (n.left != nil ==> !(key in S[n.left]))
+//@   assert n != nil && key[d] == n.c && d >= len(key) - 1 ==> (forall m *node :: { m in repr[n.left] } n.left != nil && m in repr[n.left] && m.isValid ==> term[m] in S[m] && term[m] in S[n.left] && term[m] != key)
+//@   assert n != nil && key[d] == n.c && d >= len(key) - 1 ==> (n.mid != nil ==> !(key in S[n.mid]))
+//@   assert n != nil && key[d] == n.c && d >= len(key) - 1 ==> (forall m *node :: { m in repr[n.mid] } n.mid != nil && m in repr[n.mid] && m.isValid ==> term[m] in S[m] && term[m] in S[n.mid] && term[m] != key)
+//@   assert n != nil && key[d] == n.c && d >= len(key) - 1 ==> (n.right != nil ==> !(key in S[n.right]))
+//@   assert n != nil && key[d] == n.c && d >= len(key) - 1 ==> (forall m *node :: { m in repr[n.right] } n.right != nil && m in repr[n.right] && m.isValid ==> term[m] in S[m] && term[m] in S[n.right] && term[m] != key)
+//@   assert n != nil && key[d] == n.c && d >= len(key) - 1 ==> (forall m *node :: { m in nrepr[result] } m in nrepr[result] && m != result ==> ((n.left != nil && m in repr[n.left]) || (n.mid != nil && m in repr[n.mid]) || (n.right != nil && m in repr[n.right])))
+//@   assert n != nil && key[d] < n.c && old(n.left) == nil ==> (forall m *node :: { m in nrepr[result.left] } result.left != nil && m in nrepr[result.left] ==> allocated(m) && m != nil)
+//@   assert n != nil && key[d] < n.c && old(n.left) == nil ==> (forall m *node :: { m in repr[n.mid] } n.mid != nil && m in repr[n.mid] ==> allocated(m) && m != nil)
+//@   assert n != nil && key[d] < n.c && old(n.left) == nil ==> (forall m *node :: { m in repr[n.right] } n.right != nil && m in repr[n.right] ==> allocated(m) && m != nil)
+//@   assert n != nil && key[d] < n.c && old(n.left) == nil ==> (forall m *node :: { m in nrepr[result] } m in nrepr[result] && m != result ==> allocated(m) && m != nil)
+//@   assert n != nil && key[d] < n.c && old(n.left) != nil ==> (forall m *node :: { m in nrepr[result.left] } result.left != nil && m in nrepr[result.left] ==> allocated(m) && m != nil)
+//@   assert n != nil && key[d] < n.c && old(n.left) != nil ==> (forall m *node :: { m in repr[n.mid] } n.mid != nil && m in repr[n.mid] ==> allocated(m) && m != nil)
+//@   assert n != nil && key[d] < n.c && old(n.left) != nil ==> (forall m *node :: { m in repr[n.right] } n.right != nil && m in repr[n.right] ==> allocated(m) && m != nil)
+//@   assert n != nil && key[d] < n.c && old(n.left) != nil ==> (forall m *node :: { m in nrepr[result] } m in nrepr[result] && m != result ==> allocated(m) && m != nil)
+//@   assert n != nil && key[d] > n.c && old(n.right) == nil ==> (forall m *node :: { m in repr[n.left] } n.left != nil && m in repr[n.left] ==> allocated(m) && m != nil)
+//@   assert n != nil && key[d] > n.c && old(n.right) == nil ==> (forall m *node :: { m in repr[n.mid] } n.mid != nil && m in repr[n.mid] ==> allocated(m) && m != nil)
+//@   assert n != nil && key[d] > n.c && old(n.right) == nil ==> (forall m *node :: { m in nrepr[result.right] } result.right != nil && m in nrepr[result.right] ==> allocated(m) && m != nil)
+//@   assert n != nil && key[d] > n.c && old(n.right) == nil ==> (forall m *node :: { m in nrepr[result] } m in nrepr[result] && m != result ==> allocated(m) && m != nil)
+//@   assert n != nil && key[d] > n.c && old(n.right) != nil ==> (forall m *node :: { m in repr[n.left] } n.left != nil && m in repr[n.left] ==> allocated(m) && m != nil)
+//@   assert n != nil && key[d] > n.c && old(n.right) != nil ==> (forall m *node :: { m in repr[n.mid] } n.mid != nil && m in repr[n.mid] ==> allocated(m) && m != nil)
+//@   assert n != nil && key[d] > n.c && old(n.right) != nil ==> (forall m *node :: { m in nrepr[result.right] } result.right != nil && m in nrepr[result.right] ==> allocated(m) && m != nil)
+//@   assert n != nil && key[d] > n.c && old(n.right) != nil ==> (forall m *node :: { m in nrepr[result] } m in nrepr[result] && m != result ==> allocated(m) && m != nil)
+//@   assert n == nil && d < len(key) - 1 ==> (forall m *node :: { m in nrepr[result.mid] } result.mid != nil && m in nrepr[result.mid] ==> allocated(m) && m != nil)
+//@   assert n == nil && d < len(key) - 1 ==> (forall m *node :: { m in nrepr[result] } m in nrepr[result] && m != result ==> allocated(m) && m != nil)
+//@   assert n != nil && key[d] == n.c && d < len(key) - 1 && old(n.mid) == nil ==> (forall m *node :: { m in repr[n.left] } n.left != nil && m in repr[n.left] ==> allocated(m) && m != nil)
+//@   assert n != nil && key[d] == n.c && d < len(key) - 1 && old(n.mid) == nil ==> (forall m *node :: { m in nrepr[result.mid] } result.mid != nil && m in nrepr[result.mid] ==> allocated(m) && m != nil)
+//@   assert n != nil && key[d] == n.c && d < len(key) - 1 && old(n.mid) == nil ==> (forall m *node :: { m in repr[n.right] } n.right != nil && m in repr[n.right] ==> allocated(m) && m != nil)
+//@   assert n != nil && key[d] == n.c && d < len(key) - 1 && old(n.mid) == nil ==> (forall m *node :: { m in nrepr[result] } m in nrepr[result] && m != result ==> allocated(m) && m != nil)
+//@   assert n != nil && key[d] == n.c && d < len(key) - 1 && old(n.mid) != nil ==> (forall m *node :: { m in repr[n.left] } n.left != nil && m in repr[n.left] ==> allocated(m) && m != nil)
+//@   assert n != nil && key[d] == n.c && d < len(key) - 1 && old(n.mid) != nil ==> (forall m *node :: { m in nrepr[result.mid] } result.mid != nil && m in nrepr[result.mid] ==> allocated(m) && m != nil)
+//@   assert n != nil && key[d] == n.c && d < len(key) - 1 && old(n.mid) != nil ==> (forall m *node :: { m in repr[n.right] } n.right != nil && m in repr[n.right] ==> allocated(m) && m != nil)
+//@   assert n != nil && key[d] == n.c && d < len(key) - 1 && old(n.mid) != nil ==> (forall m *node :: { m in nrepr[result] } m in nrepr[result] && m != result ==> allocated(m) && m != nil)
+//@   assert n == nil && d >= len(key) - 1 ==> (forall m *node :: { m in nrepr[result] } m in nrepr[result] && m != result ==> allocated(m) && m != nil)
+//@   assert n != nil && key[d] == n.c && d >= len(key) - 1 ==> (forall m *node :: { m in repr[n.left] } n.left != nil && m in repr[n.left] ==> allocated(m) && m != nil)
+//@   assert n != nil && key[d] == n.c && d >= len(key) - 1 ==> (forall m *node :: { m in repr[n.mid] } n.mid != nil && m in repr[n.mid] ==> allocated(m) && m != nil)
+//@   assert n != nil && key[d] == n.c && d >= len(key) - 1 ==> (forall m *node :: { m in repr[n.right] } n.right != nil && m in repr[n.right] ==> allocated(m) && m != nil)
+//@   assert n != nil && key[d] == n.c && d >= len(key) - 1 ==> (forall m *node :: { m in nrepr[result] } m in nrepr[result] && m != result ==> allocated(m) && m != nil)
+//@   assert forall m *node :: { m in nrepr[result] } m in nrepr[result] && m != result ==> allocated(m) && m != nil
+//@   assert n != nil && key[d] < n.c && old(n.left) == nil ==> (forall m *node :: { m in nrepr[result.left] } result.left != nil && m in nrepr[result.left] ==> nsubset(nrepr[m], nrepr[result]))
+//@   assert n != nil && key[d] < n.c && old(n.left) == nil ==> (forall m *node :: { m in repr[n.mid] } n.mid != nil && m in repr[n.mid] ==> nsubset(nrepr[m], nrepr[result]))
+//@   assert n != nil && key[d] < n.c && old(n.left) == nil ==> (forall m *node :: { m in repr[n.right] } n.right != nil && m in repr[n.right] ==> nsubset(nrepr[m], nrepr[result]))
+//@   assert n != nil && key[d] < n.c && old(n.left) == nil ==> (forall m *node :: { m in nrepr[result] } m in nrepr[result] && m != result ==> nsubset(nrepr[m], nrepr[result]))
+//@   assert n != nil && key[d] < n.c && old(n.left) != nil ==> (forall m *node :: { m in nrepr[result.left] } result.left != nil && m in nrepr[result.left] ==> nsubset(nrepr[m], nrepr[result]))
+//@   assert n != nil && key[d] < n.c && old(n.left) != nil ==> (forall m *node :: { m in repr[n.mid] } n.mid != nil && m in repr[n.mid] ==> nsubset(nrepr[m], nrepr[result]))
+//@   assert n != nil && key[d] < n.c && old(n.left) != nil ==> (forall m *node :: { m in repr[n.right] } n.right != nil && m in repr[n.right] ==> nsubset(nrepr[m], nrepr[result]))
+//@   assert n != nil && key[d] < n.c && old(n.left) != nil ==> (forall m *node :: { m in nrepr[result] } m in nrepr[result] && m != result ==> nsubset(nrepr[m], nrepr[result]))
+//@   assert n != nil && key[d] > n.c && old(n.right) == nil ==> (forall m *node :: { m in repr[n.left] } n.left != nil && m in repr[n.left] ==> nsubset(nrepr[m], nrepr[result]))
+//@   assert n != nil && key[d] > n.c && old(n.right) == nil ==> (forall m *node :: { m in repr[n.mid] } n.mid != nil && m in repr[n.mid] ==> nsubset(nrepr[m], nrepr[result]))
+//@   assert n != nil && key[d] > n.c && old(n.right) == nil ==> (forall m *node :: { m in nrepr[result.right] } result.right != nil && m in nrepr[result.right] ==> nsubset(nrepr[m], nrepr[result]))
+//@   assert n != nil && key[d] > n.c && old(n.right) == nil ==> (forall m *node :: { m in nrepr[result] } m in nrepr[result] && m != result ==> nsubset(nrepr[m], nrepr[result]))
+//@   assert n != nil && key[d] > n.c && old(n.right) != nil ==> (forall m *node :: { m in repr[n.left] } n.left != nil && m in repr[n.left] ==> nsubset(nrepr[m], nrepr[result]))
+//@   assert n != nil && key[d] > n.c && old(n.right) != nil ==> (forall m *node :: { m in repr[n.mid] } n.mid != nil && m in repr[n.mid] ==> nsubset(nrepr[m], nrepr[result]))
+//@   assert n != nil && key[d] > n.c && old(n.right) != nil ==> (forall m *node :: { m in nrepr[result.right] } result.right != nil && m in nrepr[result.right] ==> nsubset(nrepr[m], nrepr[result]))
+//@   assert n != nil && key[d] > n.c && old(n.right) != nil ==> (forall m *node :: { m in nrepr[result] } m in nrepr[result] && m != result ==> nsubset(nrepr[m], nrepr[result]))
+//@   assert n == nil && d < len(key) - 1 ==> (forall m *node :: { m in nrepr[result.mid] } result.mid != nil && m in nrepr[result.mid] ==> nsubset(nrepr[m], nrepr[result]))
+//@   assert n == nil && d < len(key) - 1 ==> (forall m *node :: { m in nrepr[result] } m in nrepr[result] && m != result ==> nsubset(nrepr[m], nrepr[result]))
+//@   assert n != nil && key[d] == n.c && d < len(key) - 1 && old(n.mid) == nil ==> (forall m *node :: { m in repr[n.left] } n.left != nil && m in repr[n.left] ==> nsubset(nrepr[m], nrepr[result]))
+//@   assert n != nil && key[d] == n.c && d < len(key) - 1 && old(n.mid) == nil ==> (forall m *node :: { m in nrepr[result.mid] } result.mid != nil && m in nrepr[result.mid] ==> nsubset(nrepr[m], nrepr[result]))
+//@   assert n != nil && key[d] == n.c && d < len(key) - 1 && old(n.mid) == nil ==> (forall m *node :: { m in repr[n.right] } n.right != nil && m in repr[n.right] ==> nsubset(nrepr[m], nrepr[result]))
+//@   assert n != nil && key[d] == n.c && d < len(key) - 1 && old(n.mid) == nil ==> (forall m *node :: { m in nrepr[result] } m in nrepr[result] && m != result ==> nsubset(nrepr[m], nrepr[result]))
+//@   assert n != nil && key[d] == n.c && d < len(key) - 1 && old(n.mid) != nil ==> (forall m *node :: { m in repr[n.left] } n.left != nil && m in repr[n.left] ==> nsubset(nrepr[m], nrepr[result]))
+//@   assert n != nil && key[d] == n.c && d < len(key) - 1 && old(n.mid) != nil ==> (forall m *node :: { m in nrepr[result.mid] } result.mid != nil && m in nrepr[result.mid] ==> nsubset(nrepr[m], nrepr[result]))
+//@   assert n != nil && key[d] == n.c && d < len(key) - 1 && old(n.mid) != nil ==> (forall m *node :: { m in repr[n.right] } n.right != nil && m in repr[n.right] ==> nsubset(nrepr[m], nrepr[result]))
+//@   assert n != nil && key[d] == n.c && d < len(key) - 1 && old(n.mid) != nil ==> (forall m *node :: { m in nrepr[result] } m in nrepr[result] && m != result ==> nsubset(nrepr[m], nrepr[result]))
+//@   assert n == nil && d >= len(key) - 1 ==> (forall m *node :: { m in nrepr[result] } m in nrepr[result] && m != result ==> nsubset(nrepr[m], nrepr[result]))
+//@   assert n != nil && key[d] == n.c && d >= len(key) - 1 ==> (forall m *node :: { m in repr[n.left] } n.left != nil && m in repr[n.left] ==> nsubset(nrepr[m], nrepr[result]))
+//@   assert n != nil && key[d] == n.c && d >= len(key) - 1 ==> (forall m *node :: { m in repr[n.mid] } n.mid != nil && m in repr[n.mid] ==> nsubset(nrepr[m], nrepr[result]))
+//@   assert n != nil && key[d] == n.c && d >= len(key) - 1 ==> (forall m *node :: { m in repr[n.right] } n.right != nil && m in repr[n.right] ==> nsubset(nrepr[m], nrepr[result]))
+//@   assert n != nil && key[d] == n.c && d >= len(key) - 1 ==> (forall m *node :: { m in nrepr[result] } m in nrepr[result] && m != result ==> nsubset(nrepr[m], nrepr[result]))
+//@   assert forall m *node :: { m in nrepr[result] } m in nrepr[result] && m != result ==> nsubset(nrepr[m], nrepr[result])
+//@   assert n != nil && key[d] < n.c && old(n.left) == nil ==> (forall m *node :: { m in nrepr[result.left] } result.left != nil && m in nrepr[result.left] ==> (forall o *node :: { o in nrepr[m] } o in nrepr[m] ==> nsubset(nrepr[o], nrepr[m])))
+//@   assert n != nil && key[d] < n.c && old(n.left) == nil ==> (forall m *node :: { m in repr[n.mid] } n.mid != nil && m in repr[n.mid] ==> (forall o *node :: { o in nrepr[m] } o in nrepr[m] ==> nsubset(nrepr[o], nrepr[m])))
+//@   assert n != nil && key[d] < n.c && old(n.left) == nil ==> (forall m *node :: { m in repr[n.right] } n.right != nil && m in repr[n.right] ==> (forall o *node :: { o in nrepr[m] } o in nrepr[m] ==> nsubset(nrepr[o], nrepr[m])))
+//@   assert n != nil && key[d] < n.c && old(n.left) == nil ==> (forall m *node :: { m in nrepr[result] } m in nrepr[result] && m != result ==> (forall o *node :: { o in nrepr[m] } o in nrepr[m] ==> nsubset(nrepr[o], nrepr[m])))
+//@   assert n != nil && key[d] < n.c && old(n.left) != nil ==> (forall m *node :: { m in nrepr[result.left] } result.left != nil && m in nrepr[result.left] ==> (forall o *node :: { o in nrepr[m] } o in nrepr[m] ==> nsubset(nrepr[o], nrepr[m])))
+//@   assert n != nil && key[d] < n.c && old(n.left) != nil ==> (forall m *node :: { m in repr[n.mid] } n.mid != nil && m in repr[n.mid] ==> (forall o *node :: { o in nrepr[m] } o in nrepr[m] ==> nsubset(nrepr[o], nrepr[m])))
+//@   assert n != nil && key[d] < n.c && old(n.left) != nil ==> (forall m *node :: { m in repr[n.right] } n.right != nil && m in repr[n.right] ==> (forall o *node :: { o in nrepr[m] } o in nrepr[m] ==> nsubset(nrepr[o], nrepr[m])))
+//@   assert n != nil && key[d] < n.c && old(n.left) != nil ==> (forall m *node :: { m in nrepr[result] } m in nrepr[result] && m != result ==> (forall o *node :: { o in nrepr[m] } o in nrepr[m] ==> nsubset(nrepr[o], nrepr[m])))
+//@   assert n != nil && key[d] > n.c && old(n.right) == nil ==> (forall m *node :: { m in repr[n.left] } n.left != nil && m in repr[n.left] ==> (forall o *node :: { o in nrepr[m] } o in nrepr[m] ==> nsubset(nrepr[o], nrepr[m])))
+//@   assert n != nil && key[d] > n.c && old(n.right) == nil ==> (forall m *node :: { m in repr[n.mid] } n.mid != nil && m in repr[n.mid] ==> (forall o *node :: { o in nrepr[m] } o in nrepr[m] ==> nsubset(nrepr[o], nrepr[m])))
+//@   assert n != nil && key[d] > n.c && old(n.right) == nil ==> (forall m *node :: { m in nrepr[result.right] } result.right != nil && m in nrepr[result.right] ==> (forall o *node :: { o in nrepr[m] } o in nrepr[m] ==> nsubset(nrepr[o], nrepr[m])))
+//@   assert n != nil && key[d] > n.c && old(n.right) == nil ==> (forall m *node :: { m in nrepr[result] } m in nrepr[result] && m != result ==> (forall o *node :: { o in nrepr[m] } o in nrepr[m] ==> nsubset(nrepr[o], nrepr[m])))
+//@   assert n != nil && key[d] > n.c && old(n.right) != nil ==> (forall m *node :: { m in repr[n.left] } n.left != nil && m in repr[n.left] ==> (forall o *node :: { o in nrepr[m] } o in nrepr[m] ==> nsubset(nrepr[o], nrepr[m])))
+//@   assert n != nil && key[d] > n.c && old(n.right) != nil ==> (forall m *node :: { m in repr[n.mid] } n.mid != nil && m in repr[n.mid] ==> (forall o *node :: { o in nrepr[m] } o in nrepr[m] ==> nsubset(nrepr[o], nrepr[m])))
+//@   assert n != nil && key[d] > n.c && old(n.right) != nil ==> (forall m *node :: { m in nrepr[result.right] } result.right != nil && m in nrepr[result.right] ==> (forall o *node :: { o in nrepr[m] } o in nrepr[m] ==> nsubset(nrepr[o], nrepr[m])))
+//@   assert n != nil && key[d] > n.c && old(n.right) != nil ==> (forall m *node :: { m in nrepr[result] } m in nrepr[result] && m != result ==> (forall o *node :: { o in nrepr[m] } o in nrepr[m] ==> nsubset(nrepr[o], nrepr[m])))
+//@   assert n == nil && d < len(key) - 1 ==> (forall m *node :: { m in nrepr[result.mid] } result.mid != nil && m in nrepr[result.mid] ==> (forall o *node :: { o in nrepr[m] } o in nrepr[m] ==> nsubset(nrepr[o], nrepr[m])))
+//@   assert n == nil && d < len(key) - 1 ==> (forall m *node :: { m in nrepr[result] } m in nrepr[result] && m != result ==> (forall o *node :: { o in nrepr[m] } o in nrepr[m] ==> nsubset(nrepr[o], nrepr[m])))
+//@   assert n != nil && key[d] == n.c && d < len(key) - 1 && old(n.mid) == nil ==> (forall m *node :: { m in repr[n.left] } n.left != nil && m in repr[n.left] ==> (forall o *node :: { o in nrepr[m] } o in nrepr[m] ==> nsubset(nrepr[o], nrepr[m])))
+//@   assert n != nil && key[d] == n.c && d < len(key) - 1 && old(n.mid) == nil ==> (forall m *node :: { m in nrepr[result.mid] } result.mid != nil && m in nrepr[result.mid] ==> (forall o *node :: { o in nrepr[m] } o in nrepr[m] ==> nsubset(nrepr[o], nrepr[m])))
+//@   assert n != nil && key[d] == n.c && d < len(key) - 1 && old(n.mid) == nil ==> (forall m *node :: { m in repr[n.right] } n.right != nil && m in repr[n.right] ==> (forall o *node :: { o in nrepr[m] } o in nrepr[m] ==> nsubset(nrepr[o], nrepr[m])))
+//@   assert n != nil && key[d] == n.c && d < len(key) - 1 && old(n.mid) == nil ==> (forall m *node :: { m in nrepr[result] } m in nrepr[result] && m != result ==> (forall o *node :: { o in nrepr[m] } o in nrepr[m] ==> nsubset(nrepr[o], nrepr[m])))
+//@   assert n != nil && key[d] == n.c && d < len(key) - 1 && old(n.mid) != nil ==> (forall m *node :: { m in repr[n.left] } n.left != nil && m in repr[n.left] ==> (forall o *node :: { o in nrepr[m] } o in nrepr[m] ==> nsubset(nrepr[o], nrepr[m])))
+//@   assert n != nil && key[d] == n.c && d < len(key) - 1 && old(n.mid) != nil ==> (forall m *node :: { m in nrepr[result.mid] } result.mid != nil && m in nrepr[result.mid] ==> (forall o *node :: { o in nrepr[m] } o in nrepr[m] ==> nsubset(nrepr[o], nrepr[m])))
+//@   assert n != nil && key[d] == n.c && d < len(key) - 1 && old(n.mid) != nil ==> (forall m *node :: { m in repr[n.right] } n.right != nil && m in repr[n.right] ==> (forall o *node :: { o in nrepr[m] } o in nrepr[m] ==> nsubset(nrepr[o], nrepr[m])))
+//@   assert n != nil && key[d] == n.c && d < len(key) - 1 && old(n.mid) != nil ==> (forall m *node :: { m in nrepr[result] } m in nrepr[result] && m != result ==> (forall o *node :: { o in nrepr[m] } o in nrepr[m] ==> nsubset(nrepr[o], nrepr[m])))
+//@   assert n == nil && d >= len(key) - 1 ==> (forall m *node :: { m in nrepr[result] } m in nrepr[result] && m != result ==> (forall o *node :: { o in nrepr[m] } o in nrepr[m] ==> nsubset(nrepr[o], nrepr[m])))
+//@   assert n != nil && key[d] == n.c && d >= len(key) - 1 ==> (forall m *node :: { m in repr[n.left] } n.left != nil && m in repr[n.left] ==> (forall o *node :: { o in nrepr[m] } o in nrepr[m] ==> nsubset(nrepr[o], nrepr[m])))
+//@   assert n != nil && key[d] == n.c && d >= len(key) - 1 ==> (forall m *node :: { m in repr[n.mid] } n.mid != nil && m in repr[n.mid] ==> (forall o *node :: { o in nrepr[m] } o in nrepr[m] ==> nsubset(nrepr[o], nrepr[m])))
+//@   assert n != nil && key[d] == n.c && d >= len(key) - 1 ==> (forall m *node :: { m in repr[n.right] } n.right != nil && m in repr[n.right] ==> (forall o *node :: { o in nrepr[m] } o in nrepr[m] ==> nsubset(nrepr[o], nrepr[m])))
+//@   assert n != nil && key[d] == n.c && d >= len(key) - 1 ==> (forall m *node :: { m in nrepr[result] } m in nrepr[result] && m != result ==> (forall o *node :: { o in nrepr[m] } o in nrepr[m] ==> nsubset(nrepr[o], nrepr[m])))
+//@   assert forall m *node :: { m in nrepr[result] } m in nrepr[result] && m != result ==> (forall o *node :: { o in nrepr[m] } o in nrepr[m] ==> nsubset(nrepr[o], nrepr[m]))
+//@   assert n != nil && key[d] < n.c && old(n.left) == nil ==> (forall m *node :: { m in nrepr[result.left] } result.left != nil && m in nrepr[result.left] ==> ssubset(nS[m], nS[result]))
+//@   assert n != nil && key[d] < n.c && old(n.left) == nil ==> (forall m *node :: { m in repr[n.mid] } n.mid != nil && m in repr[n.mid] ==> ssubset(nS[m], nS[result]))
+//@   assert n != nil && key[d] < n.c && old(n.left) == nil ==> (forall m *node :: { m in repr[n.right] } n.right != nil && m in repr[n.right] ==> ssubset(nS[m], nS[result]))
+//@   assert n != nil && key[d] < n.c && old(n.left) == nil ==> (forall m *node :: { m in nrepr[result] } m in nrepr[result] && m != result ==> ssubset(nS[m], nS[result]))
+//@   assert n != nil && key[d] < n.c && old(n.left) != nil ==> (forall m *node :: { m in nrepr[result.left] } result.left != nil && m in nrepr[result.left] ==> ssubset(nS[m], nS[result]))
+//@   assert n != nil && key[d] < n.c && old(n.left) != nil ==> (forall m *node :: { m in repr[n.mid] } n.mid != nil && m in repr[n.mid] ==> ssubset(nS[m], nS[result]))
+//@   assert n != nil && key[d] < n.c && old(n.left) != nil ==> (forall m *node :: { m in repr[n.right] } n.right != nil && m in repr[n.right] ==> ssubset(nS[m], nS[result]))
+//@   assert n != nil && key[d] < n.c && old(n.left) != nil ==> (forall m *node :: { m in nrepr[result] } m in nrepr[result] && m != result ==> ssubset(nS[m], nS[result]))
+//@   assert n != nil && key[d] > n.c && old(n.right) == nil ==> (forall m *node :: { m in repr[n.left] } n.left != nil && m in repr[n.left] ==> ssubset(nS[m], nS[result]))
+//@   assert n != nil && key[d] > n.c && old(n.right) == nil ==> (forall m *node :: { m in repr[n.mid] } n.mid != nil && m in repr[n.mid] ==> ssubset(nS[m], nS[result]))
+//@   assert n != nil && key[d] > n.c && old(n.right) == nil ==> (forall m *node :: { m in nrepr[result.right] } result.right != nil && m in nrepr[result.right] ==> ssubset(nS[m], nS[result]))
+//@   assert n != nil && key[d] > n.c && old(n.right) == nil ==> (forall m *node :: { m in nrepr[result] } m in nrepr[result] && m != result ==> ssubset(nS[m], nS[result]))
+//@   assert n != nil && key[d] > n.c && old(n.right) != nil ==> (forall m *node :: { m in repr[n.left] } n.left != nil && m in repr[n.left] ==> ssubset(nS[m], nS[result]))
+//@   assert n != nil && key[d] > n.c && old(n.right) != nil ==> (forall m *node :: { m in repr[n.mid] } n.mid != nil && m in repr[n.mid] ==> ssubset(nS[m], nS[result]))
+//@   assert n != nil && key[d] > n.c && old(n.right) != nil ==> (forall m *node :: { m in nrepr[result.right] } result.right != nil && m in nrepr[result.right] ==> ssubset(nS[m], nS[result]))
+//@   assert n != nil && key[d] > n.c && old(n.right) != nil ==> (forall m *node :: { m in nrepr[result] } m in nrepr[result] && m != result ==> ssubset(nS[m], nS[result]))
+//@   assert n == nil && d < len(key) - 1 ==> (forall m *node :: { m in nrepr[result.mid] } result.mid != nil && m in nrepr[result.mid] ==> ssubset(nS[m], nS[result]))
+//@   assert n == nil && d < len(key) - 1 ==> (forall m *node :: { m in nrepr[result] } m in nrepr[result] && m != result ==> ssubset(nS[m], nS[result]))
+//@   assert n != nil && key[d] == n.c && d < len(key) - 1 && old(n.mid) == nil ==> (forall m *node :: { m in repr[n.left] } n.left != nil && m in repr[n.left] ==> ssubset(nS[m], nS[result]))
+//@   assert n != nil && key[d] == n.c && d < len(key) - 1 && old(n.mid) == nil ==> (forall m *node :: { m in nrepr[result.mid] } result.mid != nil && m in nrepr[result.mid] ==> ssubset(nS[m], nS[result]))
+//@   assert n != nil && key[d] == n.c && d < len(key) - 1 && old(n.mid) == nil ==> (forall m *node :: { m in repr[n.right] } n.right != nil && m in repr[n.right] ==> ssubset(nS[m], nS[result]))
+//@   assert n != nil && key[d] == n.c && d < len(key) - 1 && old(n.mid) == nil ==> (forall m *node :: { m in nrepr[result] } m in nrepr[result] && m != result ==> ssubset(nS[m], nS[result]))
+//@   assert n != nil && key[d] == n.c && d < len(key) - 1 && old(n.mid) != nil ==> (forall m *node :: { m in repr[n.left] } n.left != nil && m in repr[n.left] ==> ssubset(nS[m], nS[result]))
+//@   assert n != nil && key[d] == n.c && d < len(key) - 1 && old(n.mid) != nil ==> (forall m *node :: { m in nrepr[result.mid] } result.mid != nil && m in nrepr[result.mid] ==> ssubset(nS[m], nS[result]))
+//@   assert n != nil && key[d] == n.c && d < len(key) - 1 && old(n.mid) != nil ==> (forall m *node :: { m in repr[n.right] } n.right != nil && m in repr[n.right] ==> ssubset(nS[m], nS[result]))
+//@   assert n != nil && key[d] == n.c && d < len(key) - 1 && old(n.mid) != nil ==> (forall m *node :: { m in nrepr[result] } m in nrepr[result] && m != result ==> ssubset(nS[m], nS[result]))
+//@   assert n == nil && d >= len(key) - 1 ==> (forall m *node :: { m in nrepr[result] } m in nrepr[result] && m != result ==> ssubset(nS[m], nS[result]))
+//@   assert n != nil && key[d] == n.c && d >= len(key) - 1 ==> (forall m *node :: { m in repr[n.left] } n.left != nil && m in repr[n.left] ==> ssubset(nS[m], nS[result]))
+//@   assert n != nil && key[d] == n.c && d >= len(key) - 1 ==> (forall m *node :: { m in repr[n.mid] } n.mid != nil && m in repr[n.mid] ==> ssubset(nS[m], nS[result]))
+//@   assert n != nil && key[d] == n.c && d >= len(key) - 1 ==> (forall m *node :: { m in repr[n.right] } n.right != nil && m in repr[n.right] ==> ssubset(nS[m], nS[result]))
+//@   assert n != nil && key[d] == n.c && d >= len(key) - 1 ==> (forall m *node :: { m in nrepr[result] } m in nrepr[result] && m != result ==> ssubset(nS[m], nS[result]))
+//@   assert forall m *node :: { m in nrepr[result] } m in nrepr[result] && m != result ==> ssubset(nS[m], nS[result])
+//@   assert n != nil && key[d] < n.c && old(n.left) == nil ==> (forall m *node :: { m in nrepr[result.left] } result.left != nil && m in nrepr[result.left] ==> (forall o *node :: { o in nrepr[m] } o in nrepr[m] ==> ssubset(nS[o], nS[m])))
+//@   assert n != nil && key[d] < n.c && old(n.left) == nil ==> (forall m *node :: { m in repr[n.mid] } n.mid != nil && m in repr[n.mid] ==> (forall o *node :: { o in nrepr[m] } o in nrepr[m] ==> ssubset(nS[o], nS[m])))
+//@   assert n != nil && key[d] < n.c && old(n.left) == nil ==> (forall m *node :: { m in repr[n.right] } n.right != nil && m in repr[n.right] ==> (forall o *node :: { o in nrepr[m] } o in nrepr[m] ==> ssubset(nS[o], nS[m])))
+//@   assert n != nil && key[d] < n.c && old(n.left) == nil ==> (forall m *node :: { m in nrepr[result] } m in nrepr[result] && m != result ==> (forall o *node :: { o in nrepr[m] } o in nrepr[m] ==> ssubset(nS[o], nS[m])))
+//@   assert n != nil && key[d] < n.c && old(n.left) != nil ==> (forall m *node :: { m in nrepr[result.left] } result.left != nil && m in nrepr[result.left] ==> (forall o *node :: { o in nrepr[m] } o in nrepr[m] ==> ssubset(nS[o], nS[m])))
+//@   assert n != nil && key[d] < n.c && old(n.left) != nil ==> (forall m *node :: { m in repr[n.mid] } n.mid != nil && m in repr[n.mid] ==> (forall o *node :: { o in nrepr[m] } o in nrepr[m] ==> ssubset(nS[o], nS[m])))
+//@   assert n != nil && key[d] < n.c && old(n.left) != nil ==> (forall m *node :: { m in repr[n.right] } n.right != nil && m in repr[n.right] ==> (forall o *node :: { o in nrepr[m] } o in nrepr[m] ==> ssubset(nS[o], nS[m])))
+//@   assert n != nil && key[d] < n.c && old(n.left) != nil ==> (forall m *node :: { m in nrepr[result] } m in nrepr[result] && m != result ==> (forall o *node :: { o in nrepr[m] } o in nrepr[m] ==> ssubset(nS[o], nS[m])))
+//@   assert n != nil && key[d] > n.c && old(n.right) == nil ==> (forall m *node :: { m in repr[n.left] } n.left != nil && m in repr[n.left] ==> (forall o *node :: { o in nrepr[m] } o in nrepr[m] ==> ssubset(nS[o], nS[m])))
+//@   assert n != nil && key[d] > n.c && old(n.right) == nil ==> (forall m *node :: { m in repr[n.mid] } n.mid != nil && m in repr[n.mid] ==> (forall o *node :: { o in nrepr[m] } o in nrepr[m] ==> ssubset(nS[o], nS[m])))
+//@   assert n != nil && key[d] > n.c && old(n.right) == nil ==> (forall m *node :: { m in nrepr[result.right] } result.right != nil && m in nrepr[result.right] ==> (forall o *node :: { o in nrepr[m] } o in nrepr[m] ==> ssubset(nS[o], nS[m])))
+//@   assert n != nil && key[d] > n.c && old(n.right) == nil ==> (forall m *node :: { m in nrepr[result] } m in nrepr[result] && m != result ==> (forall o *node :: { o in nrepr[m] } o in nrepr[m] ==> ssubset(nS[o], nS[m])))
+//@   assert n != nil && key[d] > n.c && old(n.right) != nil ==> (forall m *node :: { m in repr[n.left] } n.left != nil && m in repr[n.left] ==> (forall o *node :: { o in nrepr[m] } o in nrepr[m] ==> ssubset(nS[o], nS[m])))
+//@   assert n != nil && key[d] > n.c && old(n.right) != nil ==> (forall m *node :: { m in repr[n.mid] } n.mid != nil && m in repr[n.mid] ==> (forall o *node :: { o in nrepr[m] } o in nrepr[m] ==> ssubset(nS[o], nS[m])))
+//@   assert n != nil && key[d] > n.c && old(n.right) != nil ==> (forall m *node :: { m in nrepr[result.right] } result.right != nil && m in nrepr[result.right] ==> (forall o *node :: { o in nrepr[m] } o in nrepr[m] ==> ssubset(nS[o], nS[m])))
+//@   assert n != nil && key[d] > n.c && old(n.right) != nil ==> (forall m *node :: { m in nrepr[result] } m in nrepr[result] && m != result ==> (forall o *node :: { o in nrepr[m] } o in nrepr[m] ==> ssubset(nS[o], nS[m])))
+//@   assert n == nil && d < len(key) - 1 ==> (forall m *node :: { m in nrepr[result.mid] } result.mid != nil && m in nrepr[result.mid] ==> (forall o *node :: { o in nrepr[m] } o in nrepr[m] ==> ssubset(nS[o], nS[m])))
+//@   assert n == nil && d < len(key) - 1 ==> (forall m *node :: { m in nrepr[result] } m in nrepr[result] && m != result ==> (forall o *node :: { o in nrepr[m] } o in nrepr[m] ==> ssubset(nS[o], nS[m])))
+//@   assert n != nil && key[d] == n.c && d < len(key) - 1 && old(n.mid) == nil ==> (forall m *node :: { m in repr[n.left] } n.left != nil && m in repr[n.left] ==> (forall o *node :: { o in nrepr[m] } o in nrepr[m] ==> ssubset(nS[o], nS[m])))
+//@   assert n != nil && key[d] == n.c && d < len(key) - 1 && old(n.mid) == nil ==> (forall m *node :: { m in nrepr[result.mid] } result.mid != nil && m in nrepr[result.mid] ==> (forall o *node :: { o in nrepr[m] } o in nrepr[m] ==> ssubset(nS[o], nS[m])))
+//@   assert n != nil && key[d] == n.c && d < len(key) - 1 && old(n.mid) == nil ==> (forall m *node :: { m in repr[n.right] } n.right != nil && m in repr[n.right] ==> (forall o *node :: { o in nrepr[m] } o in nrepr[m] ==> ssubset(nS[o], nS[m])))
+//@   assert n != nil && key[d] == n.c && d < len(key) - 1 && old(n.mid) == nil ==> (forall m *node :: { m in nrepr[result] } m in nrepr[result] && m != result ==> (forall o *node :: { o in nrepr[m] } o in nrepr[m] ==> ssubset(nS[o], nS[m])))
+//@   assert n != nil && key[d] == n.c && d < len(key) - 1 && old(n.mid) != nil ==> (forall m *node :: { m in repr[n.left] } n.left != nil && m in repr[n.left] ==> (forall o *node :: { o in nrepr[m] } o in nrepr[m] ==> ssubset(nS[o], nS[m])))
+//@   assert n != nil && key[d] == n.c && d < len(key) - 1 && old(n.mid) != nil ==> (forall m *node :: { m in nrepr[result.mid] } result.mid != nil && m in nrepr[result.mid] ==> (forall o *node :: { o in nrepr[m] } o in nrepr[m] ==> ssubset(nS[o], nS[m])))
+//@   assert n != nil && key[d] == n.c && d < len(key) - 1 && old(n.mid) != nil ==> (forall m *node :: { m in repr[n.right] } n.right != nil && m in repr[n.right] ==> (forall o *node :: { o in nrepr[m] } o in nrepr[m] ==> ssubset(nS[o], nS[m])))
+//@   assert n != nil && key[d] == n.c && d < len(key) - 1 && old(n.mid) != nil ==> (forall m *node :: { m in nrepr[result] } m in nrepr[result] && m != result ==> (forall o *node :: { o in nrepr[m] } o in nrepr[m] ==> ssubset(nS[o], nS[m])))
+//@   assert n == nil && d >= len(key) - 1 ==> (forall m *node :: { m in nrepr[result] } m in nrepr[result] && m != result ==> (forall o *node :: { o in nrepr[m] } o in nrepr[m] ==> ssubset(nS[o], nS[m])))
+//@   assert n != nil && key[d] == n.c && d >= len(key) - 1 ==> (forall m *node :: { m in repr[n.left] } n.left != nil && m in repr[n.left] ==> (forall o *node :: { o in nrepr[m] } o in nrepr[m] ==> ssubset(nS[o], nS[m])))
+//@   assert n != nil && key[d] == n.c && d >= len(key) - 1 ==> (forall m *node :: { m in repr[n.mid] } n.mid != nil && m in repr[n.mid] ==> (forall o *node :: { o in nrepr[m] } o in nrepr[m] ==> ssubset(nS[o], nS[m])))
+//@   assert n != nil && key[d] == n.c && d >= len(key) - 1 ==> (forall m *node :: { m in repr[n.right] } n.right != nil && m in repr[n.right] ==> (forall o *node :: { o in nrepr[m] } o in nrepr[m] ==> ssubset(nS[o], nS[m])))
+//@   assert n != nil && key[d] == n.c && d >= len(key) - 1 ==> (forall m *node :: { m in nrepr[result] } m in nrepr[result] && m != result ==> (forall o *node :: { o in nrepr[m] } o in nrepr[m] ==> ssubset(nS[o], nS[m])))
+//@   assert forall m *node :: { m in nrepr[result] } m in nrepr[result] && m != result ==> (forall o *node :: { o in nrepr[m] } o in nrepr[m] ==> ssubset(nS[o], nS[m]))
+//@   assert n != nil && key[d] < n.c && old(n.left) == nil ==> (forall m *node :: { m in nrepr[result.left] } result.left != nil && m in nrepr[result.left] ==> tshape(m, nrepr))
+//@   assert n != nil && key[d] < n.c && old(n.left) == nil ==> (forall m *node :: { m in repr[n.mid] } n.mid != nil && m in repr[n.mid] ==> tshape(m, nrepr))
+//@   assert n != nil && key[d] < n.c && old(n.left) == nil ==> (forall m *node :: { m in repr[n.right] } n.right != nil && m in repr[n.right] ==> tshape(m, nrepr))
+//@   assert n != nil && key[d] < n.c && old(n.left) == nil ==> (forall m *node :: { m in nrepr[result] } m in nrepr[result] && m != result ==> tshape(m, nrepr))
+//@   assert n != nil && key[d] < n.c && old(n.left) != nil ==> (forall m *node :: { m in nrepr[result.left] } result.left != nil && m in nrepr[result.left] ==> tshape(m, nrepr))
+//@   assert n != nil && key[d] < n.c && old(n.left) != nil ==> (forall m *node :: { m in repr[n.mid] } n.mid != nil && m in repr[n.mid] ==> tshape(m, nrepr))
+//@   assert n != nil && key[d] < n.c && old(n.left) != nil ==> (forall m *node :: { m in repr[n.right] } n.right != nil && m in repr[n.right] ==> tshape(m, nrepr))
+//@   assert n != nil && key[d] < n.c && old(n.left) != nil ==> (forall m *node :: { m in nrepr[result] } m in nrepr[result] && m != result ==> tshape(m, nrepr))
+//@   assert n != nil && key[d] > n.c && old(n.right) == nil ==> (forall m *node :: { m in repr[n.left] } n.left != nil && m in repr[n.left] ==> tshape(m, nrepr))
+//@   assert n != nil && key[d] > n.c && old(n.right) == nil ==> (forall m *node :: { m in repr[n.mid] } n.mid != nil && m in repr[n.mid] ==> tshape(m, nrepr))
+//@   assert n != nil && key[d] > n.c && old(n.right) == nil ==> (forall m *node :: { m in nrepr[result.right] } result.right != nil && m in nrepr[result.right] ==> tshape(m, nrepr))
+//@   assert n != nil && key[d] > n.c && old(n.right) == nil ==> (forall m *node :: { m in nrepr[result] } m in nrepr[result] && m != result ==> tshape(m, nrepr))
+//@   assert n != nil && key[d] > n.c && old(n.right) != nil ==> (forall m *node :: { m in repr[n.left] } n.left != nil && m in repr[n.left] ==> tshape(m, nrepr))
+//@   assert n != nil && key[d] > n.c && old(n.right) != nil ==> (forall m *node :: { m in repr[n.mid] } n.mid != nil && m in repr[n.mid] ==> tshape(m, nrepr))
+//@   assert n != nil && key[d] > n.c && old(n.right) != nil ==> (forall m *node :: { m in nrepr[result.right] } result.right != nil && m in nrepr[result.right] ==> tshape(m, nrepr))
+//@   assert n != nil && key[d] > n.c && old(n.right) != nil ==> (forall m *node :: { m in nrepr[result] } m in nrepr[result] && m != result ==> tshape(m, nrepr))
+//@   assert n == nil && d < len(key) - 1 ==> (forall m *node :: { m in nrepr[result.mid] } result.mid != nil && m in nrepr[result.mid] ==> tshape(m, nrepr))
+//@   assert n == nil && d < len(key) - 1 ==> (forall m *node :: { m in nrepr[result] } m in nrepr[result] && m != result ==> tshape(m, nrepr))
+//@   assert n != nil && key[d] == n.c && d < len(key) - 1 && old(n.mid) == nil ==> (forall m *node :: { m in repr[n.left] } n.left != nil && m in repr[n.left] ==> tshape(m, nrepr))
+//@   assert n != nil && key[d] == n.c && d < len(key) - 1 && old(n.mid) == nil ==> (forall m *node :: { m in nrepr[result.mid] } result.mid != nil && m in nrepr[result.mid] ==> tshape(m, nrepr))
+//@   assert n != nil && key[d] == n.c && d < len(key) - 1 && old(n.mid) == nil ==> (forall m *node :: { m in repr[n.right] } n.right != nil && m in repr[n.right] ==> tshape(m, nrepr))
+//@   assert n != nil && key[d] == n.c && d < len(key) - 1 && old(n.mid) == nil ==> (forall m *node :: { m in nrepr[result] } m in nrepr[result] && m != result ==> tshape(m, nrepr))
+//@   assert n != nil && key[d] == n.c && d < len(key) - 1 && old(n.mid) != nil ==> (forall m *node :: { m in repr[n.left] } n.left != nil && m in repr[n.left] ==> tshape(m, nrepr))
+//@   assert n != nil && key[d] == n.c && d < len(key) - 1 && old(n.mid) != nil ==> (forall m *node :: { m in nrepr[result.mid] } result.mid != nil && m in nrepr[result.mid] ==> tshape(m, nrepr))
+//@   assert n != nil && key[d] == n.c && d < len(key) - 1 && old(n.mid) != nil ==> (forall m *node :: { m in repr[n.right] } n.right != nil && m in repr[n.right] ==> tshape(m, nrepr))
+//@   assert n != nil && key[d] == n.c && d < len(key) - 1 && old(n.mid) != nil ==> (forall m *node :: { m in nrepr[result] } m in nrepr[result] && m != result ==> tshape(m, nrepr))
+//@   assert n == nil && d >= len(key) - 1 ==> (forall m *node :: { m in nrepr[result] } m in nrepr[result] && m != result ==> tshape(m, nrepr))
+//@   assert n != nil && key[d] == n.c && d >= len(key) - 1 ==> (forall m *node :: { m in repr[n.left] } n.left != nil && m in repr[n.left] ==> tshape(m, nrepr))
+//@   assert n != nil && key[d] == n.c && d >= len(key) - 1 ==> (forall m *node :: { m in repr[n.mid] } n.mid != nil && m in repr[n.mid] ==> tshape(m, nrepr))
+//@   assert n != nil && key[d] == n.c && d >= len(key) - 1 ==> (forall m *node :: { m in repr[n.right] } n.right != nil && m in repr[n.right] ==> tshape(m, nrepr))
+//@   assert n != nil && key[d] == n.c && d >= len(key) - 1 ==> (forall m *node :: { m in nrepr[result] } m in nrepr[result] && m != result ==> tshape(m, nrepr))
+//@   assert forall m *node :: { m in nrepr[result] } m in nrepr[result] && m != result ==> tshape(m, nrepr)
+//@   assert n != nil && key[d] < n.c && old(n.left) == nil ==> (forall m *node :: { m in nrepr[result.left] } result.left != nil && m in nrepr[result.left] ==> tl1(m, nrepr, nS, nterm, nwit, ndep, store(vm, key, val)))
+//@   assert n != nil && key[d] < n.c && old(n.left) == nil ==> (forall m *node :: { m in repr[n.mid] } n.mid != nil && m in repr[n.mid] ==> tl1(m, nrepr, nS, nterm, nwit, ndep, store(vm, key, val)))
+//@   assert n != nil && key[d] < n.c && old(n.left) == nil ==> (forall m *node :: { m in repr[n.right] } n.right != nil && m in repr[n.right] ==> tl1(m, nrepr, nS, nterm, nwit, ndep, store(vm, key, val)))
+//@   assert n != nil && key[d] < n.c && old(n.left) == nil ==> (forall m *node :: { m in nrepr[result] } m in nrepr[result] && m != result ==> tl1(m, nrepr, nS, nterm, nwit, ndep, store(vm, key, val)))
+//@   assert n != nil && key[d] < n.c && old(n.left) != nil ==> (forall m *node :: { m in nrepr[result.left] } result.left != nil && m in nrepr[result.left] ==> tl1(m, nrepr, nS, nterm, nwit, ndep, store(vm, key, val)))
+//@   assert n != nil && key[d] < n.c && old(n.left) != nil ==> (forall m *node :: { m in repr[n.mid] } n.mid != nil && m in repr[n.mid] ==> tl1(m, nrepr, nS, nterm, nwit, ndep, store(vm, key, val)))
+//@   assert n != nil && key[d] < n.c && old(n.left) != nil ==> (forall m *node :: { m in repr[n.right] } n.right != nil && m in repr[n.right] ==> tl1(m, nrepr, nS, nterm, nwit, ndep, store(vm, key, val)))
+//@   assert n != nil && key[d] < n.c && old(n.left) != nil ==> (forall m *node :: { m in nrepr[result] } m in nrepr[result] && m != result ==> tl1(m, nrepr, nS, nterm, nwit, ndep, store(vm, key, val)))
+//@   assert n != nil && key[d] > n.c && old(n.right) == nil ==> (forall m *node :: { m in repr[n.left] } n.left != nil && m in repr[n.left] ==> tl1(m, nrepr, nS, nterm, nwit, ndep, store(vm, key, val)))
+//@   assert n != nil && key[d] > n.c && old(n.right) == nil ==> (forall m *node :: { m in repr[n.mid] } n.mid != nil && m in repr[n.mid] ==> tl1(m, nrepr, nS, nterm, nwit, ndep, store(vm, key, val)))
+//@   assert n != nil && key[d] > n.c && old(n.right) == nil ==> (forall m *node :: { m in nrepr[result.right] } result.right != nil && m in nrepr[result.right] ==> tl1(m, nrepr, nS, nterm, nwit, ndep, store(vm, key, val)))
+//@   assert n != nil && key[d] > n.c && old(n.right) == nil ==> (forall m *node :: { m in nrepr[result] } m in nrepr[result] && m != result ==> tl1(m, nrepr, nS, nterm, nwit, ndep, store(vm, key, val)))
+//@   assert n != nil && key[d] > n.c && old(n.right) != nil ==> (forall m *node :: { m in repr[n.left] } n.left != nil && m in repr[n.left] ==> tl1(m, nrepr, nS, nterm, nwit, ndep, store(vm, key, val)))
+//@   assert n != nil && key[d] > n.c && old(n.right) != nil ==> (forall m *node :: { m in repr[n.mid] } n.mid != nil && m in repr[n.mid] ==> tl1(m, nrepr, nS, nterm, nwit, ndep, store(vm, key, val)))
+//@   assert n != nil && key[d] > n.c && old(n.right) != nil ==> (forall m *node :: { m in nrepr[result.right] } result.right != nil && m in nrepr[result.right] ==> tl1(m, nrepr, nS, nterm, nwit, ndep, store(vm, key, val)))
+//@   assert n != nil && key[d] > n.c && old(n.right) != nil ==> (forall m *node :: { m in nrepr[result] } m in nrepr[result] && m != result ==> tl1(m, nrepr, nS, nterm, nwit, ndep, store(vm, key, val)))
+//@   assert n == nil && d < len(key) - 1 ==> (forall m *node :: { m in nrepr[result.mid] } result.mid != nil && m in nrepr[result.mid] ==> tl1(m, nrepr, nS, nterm, nwit, ndep, store(vm, key, val)))
+//@   assert n == nil && d < len(key) - 1 ==> (forall m *node :: { m in nrepr[result] } m in nrepr[result] && m != result ==> tl1(m, nrepr, nS, nterm, nwit, ndep, store(vm, key, val)))
+//@   assert n != nil && key[d] == n.c && d < len(key) - 1 && old(n.mid) == nil ==> (forall m *node :: { m in repr[n.left] } n.left != nil && m in repr[n.left] ==> tl1(m, nrepr, nS, nterm, nwit, ndep, store(vm, key, val)))
+//@   assert n != nil && key[d] == n.c && d < len(key) - 1 && old(n.mid) == nil ==> (forall m *node :: { m in nrepr[result.mid] } result.mid != nil && m in nrepr[result.mid] ==> tl1(m, nrepr, nS, nterm, nwit, ndep, store(vm, key, val)))
+//@   assert n != nil && key[d] == n.c && d < len(key) - 1 && old(n.mid) == nil ==> (forall m *node :: { m in repr[n.right] } n.right != nil && m in repr[n.right] ==> tl1(m, nrepr, nS, nterm, nwit, ndep, store(vm, key, val)))
+//@   assert n != nil && key[d] == n.c && d < len(key) - 1 && old(n.mid) == nil ==> (forall m *node :: { m in nrepr[result] } m in nrepr[result] && m != result ==> tl1(m, nrepr, nS, nterm, nwit, ndep, store(vm, key, val)))
+//@   assert n != nil && key[d] == n.c && d < len(key) - 1 && old(n.mid) != nil ==> (forall m *node :: { m in repr[n.left] } n.left != nil && m in repr[n.left] ==> tl1(m, nrepr, nS, nterm, nwit, ndep, store(vm, key, val)))
+//@   assert n != nil && key[d] == n.c && d < len(key) - 1 && old(n.mid) != nil ==> (forall m *node :: { m in nrepr[result.mid] } result.mid != nil && m in nrepr[result.mid] ==> tl1(m, nrepr, nS, nterm, nwit, ndep, store(vm, key, val)))
+//@   assert n != nil && key[d] == n.c && d < len(key) - 1 && old(n.mid) != nil ==> (forall m *node :: { m in repr[n.right] } n.right != nil && m in repr[n.right] ==> tl1(m, nrepr, nS, nterm, nwit, ndep, store(vm, key, val)))
+//@   assert n != nil && key[d] == n.c && d < len(key) - 1 && old(n.mid) != nil ==> (forall m *node :: { m in nrepr[result] } m in nrepr[result] && m != result ==> tl1(m, nrepr, nS, nterm, nwit, ndep, store(vm, key, val)))
+//@   assert n == nil && d >= len(key) - 1 ==> (forall m *node :: { m in nrepr[result] } m in nrepr[result] && m != result ==> tl1(m, nrepr, nS, nterm, nwit, ndep, store(vm, key, val)))
+//@   assert n != nil && key[d] == n.c && d >= len(key) - 1 ==> (forall m *node :: { m in repr[n.left] } n.left != nil && m in repr[n.left] ==> tl1(m, nrepr, nS, nterm, nwit, ndep, store(vm, key, val)))
+//@   assert n != nil && key[d] == n.c && d >= len(key) - 1 ==> (forall m *node :: { m in repr[n.mid] } n.mid != nil && m in repr[n.mid] ==> tl1(m, nrepr, nS, nterm, nwit, ndep, store(vm, key, val)))
+//@   assert n != nil && key[d] == n.c && d >= len(key) - 1 ==> (forall m *node :: { m in repr[n.right] } n.right != nil && m in repr[n.right] ==> tl1(m, nrepr, nS, nterm, nwit, ndep, store(vm, key, val)))
+//@   assert n != nil && key[d] == n.c && d >= len(key) - 1 ==> (forall m *node :: { m in nrepr[result] } m in nrepr[result] && m != result ==> tl1(m, nrepr, nS, nterm, nwit, ndep, store(vm, key, val)))
+//@   assert forall m *node :: { m in nrepr[result] } m in nrepr[result] && m != result ==> tl1(m, nrepr, nS, nterm, nwit, ndep, store(vm, key, val))
+//@   assert n != nil && key[d] < n.c && old(n.left) == nil ==> (forall m *node :: { m in nrepr[result.left] } result.left != nil && m in nrepr[result.left] ==> tl2(m, nrepr, nS, nterm, nwit, ndep, store(vm, key, val)))
+//@   assert n != nil && key[d] < n.c && old(n.left) == nil ==> (forall m *node :: { m in repr[n.mid] } n.mid != nil && m in repr[n.mid] ==> tl2(m, nrepr, nS, nterm, nwit, ndep, store(vm, key, val)))
+//@   assert n != nil && key[d] < n.c && old(n.left) == nil ==> (forall m *node :: { m in repr[n.right] } n.right != nil && m in repr[n.right] ==> tl2(m, nrepr, nS, nterm, nwit, ndep, store(vm, key, val)))
+//@   assert n != nil && key[d] < n.c && old(n.left) == nil ==> (forall m *node :: { m in nrepr[result] } m in nrepr[result] && m != result ==> tl2(m, nrepr, nS, nterm, nwit, ndep, store(vm, key, val)))
+//@   assert n != nil && key[d] < n.c && old(n.left) != nil ==> (forall m *node :: { m in nrepr[result.left] } result.left != nil && m in nrepr[result.left] ==> tl2(m, nrepr, nS, nterm, nwit, ndep, store(vm, key, val)))
+//@   assert n != nil && key[d] < n.c && old(n.left) != nil ==> (forall m *node :: { m in repr[n.mid] } n.mid != nil && m in repr[n.mid] ==> tl2(m, nrepr, nS, nterm, nwit, ndep, store(vm, key, val)))
+//@   assert n != nil && key[d] < n.c && old(n.left) != nil ==> (forall m *node :: { m in repr[n.right] } n.right != nil && m in repr[n.right] ==> tl2(m, nrepr, nS, nterm, nwit, ndep, store(vm, key, val)))
+//@   assert n != nil && key[d] < n.c && old(n.left) != nil ==> (forall m *node :: { m in nrepr[result] } m in nrepr[result] && m != result ==> tl2(m, nrepr, nS, nterm, nwit, ndep, store(vm, key, val)))
+//@   assert n != nil && key[d] > n.c && old(n.right) == nil ==> (forall m *node :: { m in repr[n.left] } n.left != nil && m in repr[n.left] ==> tl2(m, nrepr, nS, nterm, nwit, ndep, store(vm, key, val)))
+//@   assert n != nil && key[d] > n.c && old(n.right) == nil ==> (forall m *node :: { m in repr[n.mid] } n.mid != nil && m in repr[n.mid] ==> tl2(m, nrepr, nS, nterm, nwit, ndep, store(vm, key, val)))
+//@   assert n != nil && key[d] > n.c && old(n.right) == nil ==> (forall m *node :: { m in nrepr[result.right] } result.right != nil && m in nrepr[result.right] ==> tl2(m, nrepr, nS, nterm, nwit, ndep, store(vm, key, val)))
+//@   assert n != nil && key[d] > n.c && old(n.right) == nil ==> (forall m *node :: { m in nrepr[result] } m in nrepr[result] && m != result ==> tl2(m, nrepr, nS, nterm, nwit, ndep, store(vm, key, val)))
+//@   assert n != nil && key[d] > n.c && old(n.right) != nil ==> (forall m *node :: { m in repr[n.left] } n.left != nil && m in repr[n.left] ==> tl2(m, nrepr, nS, nterm, nwit, ndep, store(vm, key, val)))
+//@   assert n != nil && key[d] > n.c && old(n.right) != nil ==> (forall m *node :: { m in repr[n.mid] } n.mid != nil && m in repr[n.mid] ==> tl2(m, nrepr, nS, nterm, nwit, ndep, store(vm, key, val)))
+//@   assert n != nil && key[d] > n.c && old(n.right) != nil ==> (forall m *node :: { m in nrepr[result.right] } result.right != nil && m in nrepr[result.right] ==> tl2(m, nrepr, nS, nterm, nwit, ndep, store(vm, key, val)))
+//@   assert n != nil && key[d] > n.c && old(n.right) != nil ==> (forall m *node :: { m in nrepr[result] } m in nrepr[result] && m != result ==> tl2(m, nrepr, nS, nterm, nwit, ndep, store(vm, key, val)))
+//@   assert n == nil && d < len(key) - 1 ==> (forall m *node :: { m in nrepr[result.mid] } result.mid != nil && m in nrepr[result.mid] ==> tl2(m, nrepr, nS, nterm, nwit, ndep, store(vm, key, val)))
+//@   assert n == nil && d < len(key) - 1 ==> (forall m *node :: { m in nrepr[result] } m in nrepr[result] && m != result ==> tl2(m, nrepr, nS, nterm, nwit, ndep, store(vm, key, val)))
+//@   assert n != nil && key[d] == n.c && d < len(key) - 1 && old(n.mid) == nil ==> (forall m *node :: { m in repr[n.left] } n.left != nil && m in repr[n.left] ==> tl2(m, nrepr, nS, nterm, nwit, ndep, store(vm, key, val)))
+//@   assert n != nil && key[d] == n.c && d < len(key) - 1 && old(n.mid) == nil ==> (forall m *node :: { m in nrepr[result.mid] } result.mid != nil && m in nrepr[result.mid] ==> tl2(m, nrepr, nS, nterm, nwit, ndep, store(vm, key, val)))
+//@   assert n != nil && key[d] == n.c && d < len(key) - 1 && old(n.mid) == nil ==> (forall m *node :: { m in repr[n.right] } n.right != nil && m in repr[n.right] ==> tl2(m, nrepr, nS, nterm, nwit, ndep, store(vm, key, val)))
+//@   assert n != nil && key[d] == n.c && d < len(key) - 1 && old(n.mid) == nil ==> (forall m *node :: { m in nrepr[result] } m in nrepr[result] && m != result ==> tl2(m, nrepr, nS, nterm, nwit, ndep, store(vm, key, val)))
+//@   assert n != nil && key[d] == n.c && d < len(key) - 1 && old(n.mid) != nil ==> (forall m *node :: { m in repr[n.left] } n.left != nil && m in repr[n.left] ==> tl2(m, nrepr, nS, nterm, nwit, ndep, store(vm, key, val)))
+//@   assert n != nil && key[d] == n.c && d < len(key) - 1 && old(n.mid) != nil ==> (forall m *node :: { m in nrepr[result.mid] } result.mid != nil && m in nrepr[result.mid] ==> tl2(m, nrepr, nS, nterm, nwit, ndep, store(vm, key, val)))
+//@   assert n != nil && key[d] == n.c && d < len(key) - 1 && old(n.mid) != nil ==> (forall m *node :: { m in repr[n.right] } n.right != nil && m in repr[n.right] ==> tl2(m, nrepr, nS, nterm, nwit, ndep, store(vm, key, val)))
+//@   assert n != nil && key[d] == n.c && d < len(key) - 1 && old(n.mid) != nil ==> (forall m *node :: { m in nrepr[result] } m in nrepr[result] && m != result ==> tl2(m, nrepr, nS, nterm, nwit, ndep, store(vm, key, val)))
+//@   assert n == nil && d >= len(key) - 1 ==> (forall m *node :: { m in nrepr[result] } m in nrepr[result] && m != result ==> tl2(m, nrepr, nS, nterm, nwit, ndep, store(vm, key, val)))
+//@   assert n != nil && key[d] == n.c && d >= len(key) - 1 ==> (forall m *node :: { m in repr[n.left] } n.left != nil && m in repr[n.left] ==> tl2(m, nrepr, nS, nterm, nwit, ndep, store(vm, key, val)))
+//@   assert n != nil && key[d] == n.c && d >= len(key) - 1 ==> (forall m *node :: { m in repr[n.mid] } n.mid != nil && m in repr[n.mid] ==> tl2(m, nrepr, nS, nterm, nwit, ndep, store(vm, key, val)))
+//@   assert n != nil && key[d] == n.c && d >= len(key) - 1 ==> (forall m *node :: { m in repr[n.right] } n.right != nil && m in repr[n.right] ==> tl2(m, nrepr, nS, nterm, nwit, ndep, store(vm, key, val)))
+//@   assert n != nil && key[d] == n.c && d >= len(key) - 1 ==> (forall m *node :: { m in nrepr[result] } m in nrepr[result] && m != result ==> tl2(m, nrepr, nS, nterm, nwit, ndep, store(vm, key, val)))
+//@   assert forall m *node :: { m in nrepr[result] } m in nrepr[result] && m != result ==> tl2(m, nrepr, nS, nterm, nwit, ndep, store(vm, key, val))
+//@   assert n != nil && key[d] < n.c && old(n.left) == nil ==> (forall m *node :: { m in nrepr[result.left] } result.left != nil && m in nrepr[result.left] ==> tl3(m, nrepr, nS, nterm, nwit, ndep, store(vm, key, val)))
+//@   assert n != nil && key[d] < n.c && old(n.left) == nil ==> (forall m *node :: { m in repr[n.mid] } n.mid != nil && m in repr[n.mid] ==> tl3(m, nrepr, nS, nterm, nwit, ndep, store(vm, key, val)))
+//@   assert n != nil && key[d] < n.c && old(n.left) == nil ==> (forall m *node :: { m in repr[n.right] } n.right != nil && m in repr[n.right] ==> tl3(m, nrepr, nS, nterm, nwit, ndep, store(vm, key, val)))
+//@   assert n != nil && key[d] < n.c && old(n.left) == nil ==> (forall m *node :: { m in nrepr[result] } m in nrepr[result] && m != result ==> tl3(m, nrepr, nS, nterm, nwit, ndep, store(vm, key, val)))
+//@   assert n != nil && key[d] < n.c && old(n.left) != nil ==> (forall m *node :: { m in nrepr[result.left] } result.left != nil && m in nrepr[result.left] ==> tl3(m, nrepr, nS, nterm, nwit, ndep, store(vm, key, val)))
+//@   assert n != nil && key[d] < n.c && old(n.left) != nil ==> (forall m *node :: { m in repr[n.mid] } n.mid != nil && m in repr[n.mid] ==> tl3(m, nrepr, nS, nterm, nwit, ndep, store(vm, key, val)))
+//@   assert n != nil && key[d] < n.c && old(n.left) != nil ==> (forall m *node :: { m in repr[n.right] } n.right != nil && m in repr[n.right] ==> tl3(m, nrepr, nS, nterm, nwit, ndep, store(vm, key, val)))
+//@   assert n != nil && key[d] < n.c && old(n.left) != nil ==> (forall m *node :: { m in nrepr[result] } m in nrepr[result] && m != result ==> tl3(m, nrepr, nS, nterm, nwit, ndep, store(vm, key, val)))
+//@   assert n != nil && key[d] > n.c && old(n.right) == nil ==> (forall m *node :: { m in repr[n.left] } n.left != nil && m in repr[n.left] ==> tl3(m, nrepr, nS, nterm, nwit, ndep, store(vm, key, val)))
+//@   assert n != nil && key[d] > n.c && old(n.right) == nil ==> (forall m *node :: { m in repr[n.mid] } n.mid != nil && m in repr[n.mid] ==> tl3(m, nrepr, nS, nterm, nwit, ndep, store(vm, key, val)))
+//@   assert n != nil && key[d] > n.c && old(n.right) == nil ==> (forall m *node :: { m in nrepr[result.right] } result.right != nil && m in nrepr[result.right] ==> tl3(m, nrepr, nS, nterm, nwit, ndep, store(vm, key, val)))
+//@   assert n != nil && key[d] > n.c && old(n.right) == nil ==> (forall m *node :: { m in nrepr[result] } m in nrepr[result] && m != result ==> tl3(m, nrepr, nS, nterm, nwit, ndep, store(vm, key, val)))
+//@   assert n != nil && key[d] > n.c && old(n.right) != nil ==> (forall m *node :: { m in repr[n.left] } n.left != nil && m in repr[n.left] ==> tl3(m, nrepr, nS, nterm, nwit, ndep, store(vm, key, val)))
+//@   assert n != nil && key[d] > n.c && old(n.right) != nil ==> (forall m *node :: { m in repr[n.mid] } n.mid != nil && m in repr[n.mid] ==> tl3(m, nrepr, nS, nterm, nwit, ndep, store(vm, key, val)))
+//@   assert n != nil && key[d] > n.c && old(n.right) != nil ==> (forall m *node :: { m in nrepr[result.right] } result.right != nil && m in nrepr[result.right] ==> tl3(m, nrepr, nS, nterm, nwit, ndep, store(vm, key, val)))
+//@   assert n != nil && key[d] > n.c && old(n.right) != nil ==> (forall m *node :: { m in nrepr[result] } m in nrepr[result] && m != result ==> tl3(m, nrepr, nS, nterm, nwit, ndep, store(vm, key, val)))
+//@   assert n == nil && d < len(key) - 1 ==> (forall m *node :: { m in nrepr[result.mid] } result.mid != nil && m in nrepr[result.mid] ==> tl3(m, nrepr, nS, nterm, nwit, ndep, store(vm, key, val)))
+//@   assert n == nil && d < len(key) - 1 ==> (forall m *node :: { m in nrepr[result] } m in nrepr[result] && m != result ==> tl3(m, nrepr, nS, nterm, nwit, ndep, store(vm, key, val)))
+//@   assert n != nil && key[d] == n.c && d < len(key) - 1 && old(n.mid) == nil ==> (forall m *node :: { m in repr[n.left] } n.left != nil && m in repr[n.left] ==> tl3(m, nrepr, nS, nterm, nwit, ndep, store(vm, key, val)))
+//@   assert n != nil && key[d] == n.c && d < len(key) - 1 && old(n.mid) == nil ==> (forall m *node :: { m in nrepr[result.mid] } result.mid != nil && m in nrepr[result.mid] ==> tl3(m, nrepr, nS, nterm, nwit, ndep, store(vm, key, val)))
+//@   assert n != nil && key[d] == n.c && d < len(key) - 1 && old(n.mid) == nil ==> (forall m *node :: { m in repr[n.right] } n.right != nil && m in repr[n.right] ==> tl3(m, nrepr, nS, nterm, nwit, ndep, store(vm, key, val)))
+//@   assert n != nil && key[d] == n.c && d < len(key) - 1 && old(n.mid) == nil ==> (forall m *node :: { m in nrepr[result] } m in nrepr[result] && m != result ==> tl3(m, nrepr, nS, nterm, nwit, ndep, store(vm, key, val)))
+//@   assert n != nil && key[d] == n.c && d < len(key) - 1 && old(n.mid) != nil ==> (forall m *node :: { m in repr[n.left] } n.left != nil && m in repr[n.left] ==> tl3(m, nrepr, nS, nterm, nwit, ndep, store(vm, key, val)))
+//@   assert n != nil && key[d] == n.c && d < len(key) - 1 && old(n.mid) != nil ==> (forall m *node :: { m in nrepr[result.mid] } result.mid != nil && m in nrepr[result.mid] ==> tl3(m, nrepr, nS, nterm, nwit, ndep, store(vm, key, val)))
+//@   assert n != nil && key[d] == n.c && d < len(key) - 1 && old(n.mid) != nil ==> (forall m *node :: { m in repr[n.right] } n.right != nil && m in repr[n.right] ==> tl3(m, nrepr, nS, nterm, nwit, ndep, store(vm, key, val)))
+//@   assert n != nil && key[d] == n.c && d < len(key) - 1 && old(n.mid) != nil ==> (forall m *node :: { m in nrepr[result] } m in nrepr[result] && m != result ==> tl3(m, nrepr, nS, nterm, nwit, ndep, store(vm, key, val)))
+//@   assert n == nil && d >= len(key) - 1 ==> (forall m *node :: { m in nrepr[result] } m in nrepr[result] && m != result ==> tl3(m, nrepr, nS, nterm, nwit, ndep, store(vm, key, val)))
+//@   assert n != nil && key[d] == n.c && d >= len(key) - 1 ==> (forall m *node :: { m in repr[n.left] } n.left != nil && m in repr[n.left] ==> tl3(m, nrepr, nS, nterm, nwit, ndep, store(vm, key, val)))
+//@   assert n != nil && key[d] == n.c && d >= len(key) - 1 ==> (forall m *node :: { m in repr[n.mid] } n.mid != nil && m in repr[n.mid] ==> tl3(m, nrepr, nS, nterm, nwit, ndep, store(vm, key, val)))
+//@   assert n != nil && key[d] == n.c && d >= len(key) - 1 ==> (forall m *node :: { m in repr[n.right] } n.right != nil && m in repr[n.right] ==> tl3(m, nrepr, nS, nterm, nwit, ndep, store(vm, key, val)))
+//@   assert n != nil && key[d] == n.c && d >= len(key) - 1 ==> (forall m *node :: { m in nrepr[result] } m in nrepr[result] && m != result ==> tl3(m, nrepr, nS, nterm, nwit, ndep, store(vm, key, val)))
+//@   assert forall m *node :: { m in nrepr[result] } m in nrepr[result] && m != result ==> tl3(m, nrepr, nS, nterm, nwit, ndep, store(vm, key, val))
+//@   assert n != nil && key[d] < n.c && old(n.left) == nil ==> (forall m *node :: { m in nrepr[result.left] } result.left != nil && m in nrepr[result.left] ==> tl4(m, nrepr, nS, nterm, nwit, ndep, store(vm, key, val)))
+//@   assert n != nil && key[d] < n.c && old(n.left) == nil ==> (forall m *node :: { m in repr[n.mid] } n.mid != nil && m in repr[n.mid] ==> tl4(m, nrepr, nS, nterm, nwit, ndep, store(vm, key, val)))
+//@   assert n != nil && key[d] < n.c && old(n.left) == nil ==> (forall m *node :: { m in repr[n.right] } n.right != nil && m in repr[n.right] ==> tl4(m, nrepr, nS, nterm, nwit, ndep, store(vm, key, val)))
+//@   assert n != nil && key[d] < n.c && old(n.left) == nil ==> (forall m *node :: { m in nrepr[result] } m in nrepr[result] && m != result ==> tl4(m, nrepr, nS, nterm, nwit, ndep, store(vm, key, val)))
+//@   assert n != nil && key[d] < n.c && old(n.left) != nil ==> (forall m *node :: { m in nrepr[result.left] } result.left != nil && m in nrepr[result.left] ==> tl4(m, nrepr, nS, nterm, nwit, ndep, store(vm, key, val)))
+//@   assert n != nil && key[d] < n.c && old(n.left) != nil ==> (forall m *node :: { m in repr[n.mid] } n.mid != nil && m in repr[n.mid] ==> tl4(m, nrepr, nS, nterm, nwit, ndep, store(vm, key, val)))
+//@   assert n != nil && key[d] < n.c && old(n.left) != nil ==> (forall m *node :: { m in repr[n.right] } n.right != nil && m in repr[n.right] ==> tl4(m, nrepr, nS, nterm, nwit, ndep, store(vm, key, val)))
+//@   assert n != nil && key[d] < n.c && old(n.left) != nil ==> (forall m *node :: { m in nrepr[result] } m in nrepr[result] && m != result ==> tl4(m, nrepr, nS, nterm, nwit, ndep, store(vm, key, val)))
+//@   assert n != nil && key[d] > n.c && old(n.right) == nil ==> (forall m *node :: { m in repr[n.left] } n.left != nil && m in repr[n.left] ==> tl4(m, nrepr, nS, nterm, nwit, ndep, store(vm, key, val)))
+//@   assert n != nil && key[d] > n.c && old(n.right) == nil ==> (forall m *node :: { m in repr[n.mid] } n.mid != nil && m in repr[n.mid] ==> tl4(m, nrepr, nS, nterm, nwit, ndep, store(vm, key, val)))
+//@   assert n != nil && key[d] > n.c && old(n.right) == nil ==> (forall m *node :: { m in nrepr[result.right] } result.right != nil && m in nrepr[result.right] ==> tl4(m, nrepr, nS, nterm, nwit, ndep, store(vm, key, val)))
+//@   assert n != nil && key[d] > n.c && old(n.right) == nil ==> (forall m *node :: { m in nrepr[result] } m in nrepr[result] && m != result ==> tl4(m, nrepr, nS, nterm, nwit, ndep, store(vm, key, val)))
+//@   assert n != nil && key[d] > n.c && old(n.right) != nil ==> (forall m *node :: { m in repr[n.left] } n.left != nil && m in repr[n.left] ==> tl4(m, nrepr, nS, nterm, nwit, ndep, store(vm, key, val)))
+//@   assert n != nil && key[d] > n.c && old(n.right) != nil ==> (forall m *node :: { m in repr[n.mid] } n.mid != nil && m in repr[n.mid] ==> tl4(m, nrepr, nS, nterm, nwit, ndep, store(vm, key, val)))
+//@   assert n != nil && key[d] > n.c && old(n.right) != nil ==> (forall m *node :: { m in nrepr[result.right] } result.right != nil && m in nrepr[result.right] ==> tl4(m, nrepr, nS, nterm, nwit, ndep, store(vm, key, val)))
+//@   assert n != nil && key[d] > n.c && old(n.right) != nil ==> (forall m *node :: { m in nrepr[result] } m in nrepr[result] && m != result ==> tl4(m, nrepr, nS, nterm, nwit, ndep, store(vm, key, val)))
+//@   assert n == nil && d < len(key) - 1 ==> (forall m *node :: { m in nrepr[result.mid] } result.mid != nil && m in nrepr[result.mid] ==> tl4(m, nrepr, nS, nterm, nwit, ndep, store(vm, key, val)))
+//@   assert n == nil && d < len(key) - 1 ==> (forall m *node :: { m in nrepr[result] } m in nrepr[result] && m != result ==> tl4(m, nrepr, nS, nterm, nwit, ndep, store(vm, key, val)))
+//@   assert n != nil && key[d] == n.c && d < len(key) - 1 && old(n.mid) == nil ==> (forall m *node :: { m in repr[n.left] } n.left != nil && m in repr[n.left] ==> tl4(m, nrepr, nS, nterm, nwit, ndep, store(vm, key, val)))
+//@   assert n != nil && key[d] == n.c && d < len(key) - 1 && old(n.mid) == nil ==> (forall m *node :: { m in nrepr[result.mid] } result.mid != nil && m in nrepr[result.mid] ==> tl4(m, nrepr, nS, nterm, nwit, ndep, store(vm, key, val)))
+//@   assert n != nil && key[d] == n.c && d < len(key) - 1 && old(n.mid) == nil ==> (forall m *node :: { m in repr[n.right] } n.right != nil && m in repr[n.right] ==> tl4(m, nrepr, nS, nterm, nwit, ndep, store(vm, key, val)))
+//@   assert n != nil && key[d] == n.c && d < len(key) - 1 && old(n.mid) == nil ==> (forall m *node :: { m in nrepr[result] } m in nrepr[result] && m != result ==> tl4(m, nrepr, nS, nterm, nwit, ndep, store(vm, key, val)))
+//@   assert n != nil && key[d] == n.c && d < len(key) - 1 && old(n.mid) != nil ==> (forall m *node :: { m in repr[n.left] } n.left != nil && m in repr[n.left] ==> tl4(m, nrepr, nS, nterm, nwit, ndep, store(vm, key, val)))
+//@   assert n != nil && key[d] == n.c && d < len(key) - 1 && old(n.mid) != nil ==> (forall m *node :: { m in nrepr[result.mid] } result.mid != nil && m in nrepr[result.mid] ==> tl4(m, nrepr, nS, nterm, nwit, ndep, store(vm, key, val)))
+//@   assert n != nil && key[d] == n.c && d < len(key) - 1 && old(n.mid) != nil ==> (forall m *node :: { m in repr[n.right] } n.right != nil && m in repr[n.right] ==> tl4(m, nrepr, nS, nterm, nwit, ndep, store(vm, key, val)))
+//@   assert n != nil && key[d] == n.c && d < len(key) - 1 && old(n.mid) != nil ==> (forall m *node :: { m in nrepr[result] } m in nrepr[result] && m != result ==> tl4(m, nrepr, nS, nterm, nwit, ndep, store(vm, key, val)))
+//@   assert n == nil && d >= len(key) - 1 ==> (forall m *node :: { m in nrepr[result] } m in nrepr[result] && m != result ==> tl4(m, nrepr, nS, nterm, nwit, ndep, store(vm, key, val)))
+//@   assert n != nil && key[d] == n.c && d >= len(key) - 1 ==> (forall m *node :: { m in repr[n.left] } n.left != nil && m in repr[n.left] ==> tl4(m, nrepr, nS, nterm, nwit, ndep, store(vm, key, val)))
+//@   assert n != nil && key[d] == n.c && d >= len(key) - 1 ==> (forall m *node :: { m in repr[n.mid] } n.mid != nil && m in repr[n.mid] ==> tl4(m, nrepr, nS, nterm, nwit, ndep, store(vm, key, val)))
+//@   assert n != nil && key[d] == n.c && d >= len(key) - 1 ==> (forall m *node :: { m in repr[n.right] } n.right != nil && m in repr[n.right] ==> tl4(m, nrepr, nS, nterm, nwit, ndep, store(vm, key, val)))
+//@   assert n != nil && key[d] == n.c && d >= len(key) - 1 ==> (forall m *node :: { m in nrepr[result] } m in nrepr[result] && m != result ==> tl4(m, nrepr, nS, nterm, nwit, ndep, store(vm, key, val)))
+//@   assert forall m *node :: { m in nrepr[result] } m in nrepr[result] && m != result ==> tl4(m, nrepr, nS, nterm, nwit, ndep, store(vm, key, val))
+//@   assert n != nil && key[d] < n.c && old(n.left) == nil ==> (forall m *node :: { m in nrepr[result.left] } result.left != nil && m in nrepr[result.left] ==> tl5(m, nrepr, nS, nterm, nwit, ndep, store(vm, key, val)))
+//@   assert n != nil && key[d] < n.c && old(n.left) == nil ==> (forall m *node :: { m in repr[n.mid] } n.mid != nil && m in repr[n.mid] ==> tl5(m, nrepr, nS, nterm, nwit, ndep, store(vm, key, val)))
+//@   assert n != nil && key[d] < n.c && old(n.left) == nil ==> (forall m *node :: { m in repr[n.right] } n.right != nil && m in repr[n.right] ==> tl5(m, nrepr, nS, nterm, nwit, ndep, store(vm, key, val)))
+//@   assert n != nil && key[d] < n.c && old(n.left) == nil ==> (forall m *node :: { m in nrepr[result] } m in nrepr[result] && m != result ==> tl5(m, nrepr, nS, nterm, nwit, ndep, store(vm, key, val)))
+//@   assert n != nil && key[d] < n.c && old(n.left) != nil ==> (forall m *node :: { m in nrepr[result.left] } result.left != nil && m in nrepr[result.left] ==> tl5(m, nrepr, nS, nterm, nwit, ndep, store(vm, key, val)))
+//@   assert n != nil && key[d] < n.c && old(n.left) != nil ==> (forall m *node :: { m in repr[n.mid] } n.mid != nil && m in repr[n.mid] ==> tl5(m, nrepr, nS, nterm, nwit, ndep, store(vm, key, val)))
+//@   assert n != nil && key[d] < n.c && old(n.left) != nil ==> (forall m *node :: { m in repr[n.right] } n.right != nil && m in repr[n.right] ==> tl5(m, nrepr, nS, nterm, nwit, ndep, store(vm, key, val)))
+//@   assert n != nil && key[d] < n.c && old(n.left) != nil ==> (forall m *node :: { m in nrepr[result] } m in nrepr[result] && m != result ==> tl5(m, nrepr, nS, nterm, nwit, ndep, store(vm, key, val)))
+//@   assert n != nil && key[d] > n.c && old(n.right) == nil ==> (forall m *node :: { m in repr[n.left] } n.left != nil && m in repr[n.left] ==> tl5(m, nrepr, nS, nterm, nwit, ndep, store(vm, key, val)))
+//@   assert n != nil && key[d] > n.c && old(n.right) == nil ==> (forall m *node :: { m in repr[n.mid] } n.mid != nil && m in repr[n.mid] ==> tl5(m, nrepr, nS, nterm, nwit, ndep, store(vm, key, val)))
+//@   assert n != nil && key[d] > n.c && old(n.right) == nil ==> (forall m *node :: { m in nrepr[result.right] } result.right != nil && m in nrepr[result.right] ==> tl5(m, nrepr, nS, nterm, nwit, ndep, store(vm, key, val)))
+//@   assert n != nil && key[d] > n.c && old(n.right) == nil ==> (forall m *node :: { m in nrepr[result] } m in nrepr[result] && m != result ==> tl5(m, nrepr, nS, nterm, nwit, ndep, store(vm, key, val)))
+//@   assert n != nil && key[d] > n.c && old(n.right) != nil ==> (forall m *node :: { m in repr[n.left] } n.left != nil && m in repr[n.left] ==> tl5(m, nrepr, nS, nterm, nwit, ndep, store(vm, key, val)))
+//@   assert n != nil && key[d] > n.c && old(n.right) != nil ==> (forall m *node :: { m in repr[n.mid] } n.mid != nil && m in repr[n.mid] ==> tl5(m, nrepr, nS, nterm, nwit, ndep, store(vm, key, val)))
+//@   assert n != nil && key[d] > n.c && old(n.right) != nil ==> (forall m *node :: { m in nrepr[result.right] } result.right != nil && m in nrepr[result.right] ==> tl5(m, nrepr, nS, nterm, nwit, ndep, store(vm, key, val)))
+//@   assert n != nil && key[d] > n.c && old(n.right) != nil ==> (forall m *node :: { m in nrepr[result] } m in nrepr[result] && m != result ==> tl5(m, nrepr, nS, nterm, nwit, ndep, store(vm, key, val)))
+//@   assert n == nil && d < len(key) - 1 ==> (forall m *node :: { m in nrepr[result.mid] } result.mid != nil && m in nrepr[result.mid] ==> tl5(m, nrepr, nS, nterm, nwit, ndep, store(vm, key, val)))
+//@   assert n == nil && d < len(key) - 1 ==> (forall m *node :: { m in nrepr[result] } m in nrepr[result] && m != result ==> tl5(m, nrepr, nS, nterm, nwit, ndep, store(vm, key, val)))
+//@   assert n != nil && key[d] == n.c && d < len(key) - 1 && old(n.mid) == nil ==> (forall m *node :: { m in repr[n.left] } n.left != nil && m in repr[n.left] ==> tl5(m, nrepr, nS, nterm, nwit, ndep, store(vm, key, val)))
+//@   assert n != nil && key[d] == n.c && d < len(key) - 1 && old(n.mid) == nil ==> (forall m *node :: { m in nrepr[result.mid] } result.mid != nil && m in nrepr[result.mid] ==> tl5(m, nrepr, nS, nterm, nwit, ndep, store(vm, key, val)))
+//@   assert n != nil && key[d] == n.c && d < len(key) - 1 && old(n.mid) == nil ==> (forall m *node :: { m in repr[n.right] } n.right != nil && m in repr[n.right] ==> tl5(m, nrepr, nS, nterm, nwit, ndep, store(vm, key, val)))
+//@   assert n != nil && key[d] == n.c && d < len(key) - 1 && old(n.mid) == nil ==> (forall m *node :: { m in nrepr[result] } m in nrepr[result] && m != result ==> tl5(m, nrepr, nS, nterm, nwit, ndep, store(vm, key, val)))
+//@   assert n != nil && key[d] == n.c && d < len(key) - 1 && old(n.mid) != nil ==> (forall m *node :: { m in repr[n.left] } n.left != nil && m in repr[n.left] ==> tl5(m, nrepr, nS, nterm, nwit, ndep, store(vm, key, val)))
+//@   assert n != nil && key[d] == n.c && d < len(key) - 1 && old(n.mid) != nil ==> (forall m *node :: { m in nrepr[result.mid] } result.mid != nil && m in nrepr[result.mid] ==> tl5(m, nrepr, nS, nterm, nwit, ndep, store(vm, key, val)))
+//@   assert n != nil && key[d] == n.c && d < len(key) - 1 && old(n.mid) != nil ==> (forall m *node :: { m in repr[n.right] } n.right != nil && m in repr[n.right] ==> tl5(m, nrepr, nS, nterm, nwit, ndep, store(vm, key, val)))
+//@   assert n != nil && key[d] == n.c && d < len(key) - 1 && old(n.mid) != nil ==> (forall m *node :: { m in nrepr[result] } m in nrepr[result] && m != result ==> tl5(m, nrepr, nS, nterm, nwit, ndep, store(vm, key, val)))
+//@   assert n == nil && d >= len(key) - 1 ==> (forall m *node :: { m in nrepr[result] } m in nrepr[result] && m != result ==> tl5(m, nrepr, nS, nterm, nwit, ndep, store(vm, key, val)))
+//@   assert n != nil && key[d] == n.c && d >= len(key) - 1 ==> (forall m *node :: { m in repr[n.left] } n.left != nil && m in repr[n.left] ==> tl5(m, nrepr, nS, nterm, nwit, ndep, store(vm, key, val)))
+//@   assert n != nil && key[d] == n.c && d >= len(key) - 1 ==> (forall m *node :: { m in repr[n.mid] } n.mid != nil && m in repr[n.mid] ==> tl5(m, nrepr, nS, nterm, nwit, ndep, store(vm, key, val)))
+//@   assert n != nil && key[d] == n.c && d >= len(key) - 1 ==> (forall m *node :: { m in repr[n.right] } n.right != nil && m in repr[n.right] ==> tl5(m, nrepr, nS, nterm, nwit, ndep, store(vm, key, val)))
+//@   assert n != nil && key[d] == n.c && d >= len(key) - 1 ==> (forall m *node :: { m in nrepr[result] } m in nrepr[result] && m != result ==> tl5(m, nrepr, nS, nterm, nwit, ndep, store(vm, key, val)))
+//@   assert forall m *node :: { m in nrepr[result] } m in nrepr[result] && m != result ==> tl5(m, nrepr, nS, nterm, nwit, ndep, store(vm, key, val))
+//@   assert n != nil && key[d] < n.c && old(n.left) == nil ==> (forall m *node :: { m in nrepr[result.left] } result.left != nil && m in nrepr[result.left] ==> tl6(m, nrepr, nS, nterm, nwit, ndep, store(vm, key, val)))
+//@   assert n != nil && key[d] < n.c && old(n.left) == nil ==> (forall m *node :: { m in repr[n.mid] } n.mid != nil && m in repr[n.mid] ==> tl6(m, nrepr, nS, nterm, nwit, ndep, store(vm, key, val)))
+//@   assert n != nil && key[d] < n.c && old(n.left) == nil ==> (forall m *node :: { m in repr[n.right] } n.right != nil && m in repr[n.right] ==> tl6(m, nrepr, nS, nterm, nwit, ndep, store(vm, key, val)))
+//@   assert n != nil && key[d] < n.c && old(n.left) == nil ==> (forall m *node :: { m in nrepr[result] } m in nrepr[result] && m != result ==> tl6(m, nrepr, nS, nterm, nwit, ndep, store(vm, key, val)))
+//@   assert n != nil && key[d] < n.c && old(n.left) != nil ==> (forall m *node :: { m in nrepr[result.left] } result.left != nil && m in nrepr[result.left] ==> tl6(m, nrepr, nS, nterm, nwit, ndep, store(vm, key, val)))
+//@   assert n != nil && key[d] < n.c && old(n.left) != nil ==> (forall m *node :: { m in repr[n.mid] } n.mid != nil && m in repr[n.mid] ==> tl6(m, nrepr, nS, nterm, nwit, ndep, store(vm, key, val)))
+//@   assert n != nil && key[d] < n.c && old(n.left) != nil ==> (forall m *node :: { m in repr[n.right] } n.right != nil && m in repr[n.right] ==> tl6(m, nrepr, nS, nterm, nwit, ndep, store(vm, key, val)))
+//@   assert n != nil && key[d] < n.c && old(n.left) != nil ==> (forall m *node :: { m in nrepr[result] } m in nrepr[result] && m != result ==> tl6(m, nrepr, nS, nterm, nwit, ndep, store(vm, key, val)))
+//@   assert n != nil && key[d] > n.c && old(n.right) == nil ==> (forall m *node :: { m in repr[n.left] } n.left != nil && m in repr[n.left] ==> tl6(m, nrepr, nS, nterm, nwit, ndep, store(vm, key, val)))
+//@   assert n != nil && key[d] > n.c && old(n.right) == nil ==> (forall m *node :: { m in repr[n.mid] } n.mid != nil && m in repr[n.mid] ==> tl6(m, nrepr, nS, nterm, nwit, ndep, store(vm, key, val)))
+//@   assert n != nil && key[d] > n.c && old(n.right) == nil ==> (forall m *node :: { m in nrepr[result.right] } result.right != nil && m in nrepr[result.right] ==> tl6(m, nrepr, nS, nterm, nwit, ndep, store(vm, key, val)))
+//@   assert n != nil && key[d] > n.c && old(n.right) == nil ==> (forall m *node :: { m in nrepr[result] } m in nrepr[result] && m != result ==> tl6(m, nrepr, nS, nterm, nwit, ndep, store(vm, key, val)))
+//@   assert n != nil && key[d] > n.c && old(n.right) != nil ==> (forall m *node :: { m in repr[n.left] } n.left != nil && m in repr[n.left] ==> tl6(m, nrepr, nS, nterm, nwit, ndep, store(vm, key, val)))
+//@   assert n != nil && key[d] > n.c && old(n.right) != nil ==> (forall m *node :: { m in repr[n.mid] } n.mid != nil && m in repr[n.mid] ==> tl6(m, nrepr, nS, nterm, nwit, ndep, store(vm, key, val)))
+//@   assert n != nil && key[d] > n.c && old(n.right) != nil ==> (forall m *node :: { m in nrepr[result.right] } result.right != nil && m in nrepr[result.right] ==> tl6(m, nrepr, nS, nterm, nwit, ndep, store(vm, key, val)))
+//@   assert n != nil && key[d] > n.c && old(n.right) != nil ==> (forall m *node :: { m in nrepr[result] } m in nrepr[result] && m != result ==> tl6(m, nrepr, nS, nterm, nwit, ndep, store(vm, key, val)))
+//@   assert n == nil && d < len(key) - 1 ==> (forall m *node :: { m in nrepr[result.mid] } result.mid != nil && m in nrepr[result.mid] ==> tl6(m, nrepr, nS, nterm, nwit, ndep, store(vm, key, val)))
+//@   assert n == nil && d < len(key) - 1 ==> (forall m *node :: { m in nrepr[result] } m in nrepr[result] && m != result ==> tl6(m, nrepr, nS, nterm, nwit, ndep, store(vm, key, val)))
+//@   assert n != nil && key[d] == n.c && d < len(key) - 1 && old(n.mid) == nil ==> (forall m *node :: { m in repr[n.left] } n.left != nil && m in repr[n.left] ==> tl6(m, nrepr, nS, nterm, nwit, ndep, store(vm, key, val)))
+//@   assert n != nil && key[d] == n.c && d < len(key) - 1 && old(n.mid) == nil ==> (forall m *node :: { m in nrepr[result.mid] } result.mid != nil && m in nrepr[result.mid] ==> tl6(m, nrepr, nS, nterm, nwit, ndep, store(vm, key, val)))
+//@   assert n != nil && key[d] == n.c && d < len(key) - 1 && old(n.mid) == nil ==> (forall m *node :: { m in repr[n.right] } n.right != nil && m in repr[n.right] ==> tl6(m, nrepr, nS, nterm, nwit, ndep, store(vm, key, val)))
+//@   assert n != nil && key[d] == n.c && d < len(key) - 1 && old(n.mid) == nil ==> (forall m *node :: { m in nrepr[result] } m in nrepr[result] && m != result ==> tl6(m, nrepr, nS, nterm, nwit, ndep, store(vm, key, val)))
+//@   assert n != nil && key[d] == n.c && d < len(key) - 1 && old(n.mid) != nil ==> (forall m *node :: { m in repr[n.left] } n.left != nil && m in repr[n.left] ==> tl6(m, nrepr, nS, nterm, nwit, ndep, store(vm, key, val)))
+//@   assert n != nil && key[d] == n.c && d < len(key) - 1 && old(n.mid) != nil ==> (forall m *node :: { m in nrepr[result.mid] } result.mid != nil && m in nrepr[result.mid] ==> tl6(m, nrepr, nS, nterm, nwit, ndep, store(vm, key, val)))
+//@   assert n != nil && key[d] == n.c && d < len(key) - 1 && old(n.mid) != nil ==> (forall m *node :: { m in repr[n.right] } n.right != nil && m in repr[n.right] ==> tl6(m, nrepr, nS, nterm, nwit, ndep, store(vm, key, val)))
+//@   assert n != nil && key[d] == n.c && d < len(key) - 1 && old(n.mid) != nil ==> (forall m *node :: { m in nrepr[result] } m in nrepr[result] && m != result ==> tl6(m, nrepr, nS, nterm, nwit, ndep, store(vm, key, val)))
+//@   assert n == nil && d >= len(key) - 1 ==> (forall m *node :: { m in nrepr[result] } m in nrepr[result] && m != result ==> tl6(m, nrepr, nS, nterm, nwit, ndep, store(vm, key, val)))
+//@   assert n != nil && key[d] == n.c && d >= len(key) - 1 ==> (forall m *node :: { m in repr[n.left] } n.left != nil && m in repr[n.left] ==> tl6(m, nrepr, nS, nterm, nwit, ndep, store(vm, key, val)))
+//@   assert n != nil && key[d] == n.c && d >= len(key) - 1 ==> (forall m *node :: { m in repr[n.mid] } n.mid != nil && m in repr[n.mid] ==> tl6(m, nrepr, nS, nterm, nwit, ndep, store(vm, key, val)))
+//@   assert n != nil && key[d] == n.c && d >= len(key) - 1 ==> (forall m *node :: { m in repr[n.right] } n.right != nil && m in repr[n.right] ==> tl6(m, nrepr, nS, nterm, nwit, ndep, store(vm, key, val)))
+//@   assert n != nil && key[d] == n.c && d >= len(key) - 1 ==> (forall m *node :: { m in nrepr[result] } m in nrepr[result] && m != result ==> tl6(m, nrepr, nS, nterm, nwit, ndep, store(vm, key, val)))
+//@   assert forall m *node :: { m in nrepr[result] } m in nrepr[result] && m != result ==> tl6(m, nrepr, nS, nterm, nwit, ndep, store(vm, key, val))
+//@   assert n != nil && key[d] < n.c && old(n.left) == nil ==> (forall m *node :: { m in nrepr[result.left] } result.left != nil && m in nrepr[result.left] ==> tl7(m, nrepr, nS, nterm, nwit, ndep, store(vm, key, val)))
+//@   assert n != nil && key[d] < n.c && old(n.left) == nil ==> (forall m *node :: { m in repr[n.mid] } n.mid != nil && m in repr[n.mid] ==> tl7(m, nrepr, nS, nterm, nwit, ndep, store(vm, key, val)))
+//@   assert n != nil && key[d] < n.c && old(n.left) == nil ==> (forall m *node :: { m in repr[n.right] } n.right != nil && m in repr[n.right] ==> tl7(m, nrepr, nS, nterm, nwit, ndep, store(vm, key, val)))
+//@   assert n != nil && key[d] < n.c && old(n.left) == nil ==> (forall m *node :: { m in nrepr[result] } m in nrepr[result] && m != result ==> tl7(m, nrepr, nS, nterm, nwit, ndep, store(vm, key, val)))
+//@   assert n != nil && key[d] < n.c && old(n.left) != nil ==> (forall m *node :: { m in nrepr[result.left] } result.left != nil && m in nrepr[result.left] ==> tl7(m, nrepr, nS, nterm, nwit, ndep, store(vm, key, val)))
+//@   assert n != nil && key[d] < n.c && old(n.left) != nil ==> (forall m *node :: { m in repr[n.mid] } n.mid != nil && m in repr[n.mid] ==> tl7(m, nrepr, nS, nterm, nwit, ndep, store(vm, key, val)))
+//@   assert n != nil && key[d] < n.c && old(n.left) != nil ==> (forall m *node :: { m in repr[n.right] } n.right != nil && m in repr[n.right] ==> tl7(m, nrepr, nS, nterm, nwit, ndep, store(vm, key, val)))
+//@   assert n != nil && key[d] < n.c && old(n.left) != nil ==> (forall m *node :: { m in nrepr[result] } m in nrepr[result] && m != result ==> tl7(m, nrepr, nS, nterm, nwit, ndep, store(vm, key, val)))
+//@   assert n != nil && key[d] > n.c && old(n.right) == nil ==> (forall m *node :: { m in repr[n.left] } n.left != nil && m in repr[n.left] ==> tl7(m, nrepr, nS, nterm, nwit, ndep, store(vm, key, val)))
+//@   assert n != nil && key[d] > n.c && old(n.right) == nil ==> (forall m *node :: { m in repr[n.mid] } n.mid != nil && m in repr[n.mid] ==> tl7(m, nrepr, nS, nterm, nwit, ndep, store(vm, key, val)))
+//@   assert n != nil && key[d] > n.c && old(n.right) == nil ==> (forall m *node :: { m in nrepr[result.right] } result.right != nil && m in nrepr[result.right] ==> tl7(m, nrepr, nS, nterm, nwit, ndep, store(vm, key, val)))
+//@   assert n != nil && key[d] > n.c && old(n.right) == nil ==> (forall m *node :: { m in nrepr[result] } m in nrepr[result] && m != result ==> tl7(m, nrepr, nS, nterm, nwit, ndep, store(vm, key, val)))
+//@   assert n != nil && key[d] > n.c && old(n.right) != nil ==> (forall m *node :: { m in repr[n.left] } n.left != nil && m in repr[n.left] ==> tl7(m, nrepr, nS, nterm, nwit, ndep, store(vm, key, val)))
+//@   assert n != nil && key[d] > n.c && old(n.right) != nil ==> (forall m *node :: { m in repr[n.mid] } n.mid != nil && m in repr[n.mid] ==> tl7(m, nrepr, nS, nterm, nwit, ndep, store(vm, key, val)))
+//@   assert n != nil && key[d] > n.c && old(n.right) != nil ==> (forall m *node :: { m in nrepr[result.right] } result.right != nil && m in nrepr[result.right] ==> tl7(m, nrepr, nS, nterm, nwit, ndep, store(vm, key, val)))
+//@   assert n != nil && key[d] > n.c && old(n.right) != nil ==> (forall m *node :: { m in nrepr[result] } m in nrepr[result] && m != result ==> tl7(m, nrepr, nS, nterm, nwit, ndep, store(vm, key, val)))
+//@   assert n == nil && d < len(key) - 1 ==> (forall m *node :: { m in nrepr[result.mid] } result.mid != nil && m in nrepr[result.mid] ==> tl7(m, nrepr, nS, nterm, nwit, ndep, store(vm, key, val)))
+//@   assert n == nil && d < len(key) - 1 ==> (forall m *node :: { m in nrepr[result] } m in nrepr[result] && m != result ==> tl7(m, nrepr, nS, nterm, nwit, ndep, store(vm, key, val)))
+//@   assert n != nil && key[d] == n.c && d < len(key) - 1 && old(n.mid) == nil ==> (forall m *node :: { m in repr[n.left] } n.left != nil && m in repr[n.left] ==> tl7(m, nrepr, nS, nterm, nwit, ndep, store(vm, key, val)))
+//@   assert n != nil && key[d] == n.c && d < len(key) - 1 && old(n.mid) == nil ==> (forall m *node :: { m in nrepr[result.mid] } result.mid != nil && m in nrepr[result.mid] ==> tl7(m, nrepr, nS, nterm, nwit, ndep, store(vm, key, val)))
+//@   assert n != nil && key[d] == n.c && d < len(key) - 1 && old(n.mid) == nil ==> (forall m *node :: { m in repr[n.right] } n.right != nil && m in repr[n.right] ==> tl7(m, nrepr, nS, nterm, nwit, ndep, store(vm, key, val)))
+//@   assert n != nil && key[d] == n.c && d < len(key) - 1 && old(n.mid) == nil ==> (forall m *node :: { m in nrepr[result] } m in nrepr[result] && m != result ==> tl7(m, nrepr, nS, nterm, nwit, ndep, store(vm, key, val)))
+//@   assert n != nil && key[d] == n.c && d < len(key) - 1 && old(n.mid) != nil ==> (forall m *node :: { m in repr[n.left] } n.left != nil && m in repr[n.left] ==> tl7(m, nrepr, nS, nterm, nwit, ndep, store(vm, key, val)))
+//@   assert n != nil && key[d] == n.c && d < len(key) - 1 && old(n.mid) != nil ==> (forall m *node :: { m in nrepr[result.mid] } result.mid != nil && m in nrepr[result.mid] ==> tl7(m, nrepr, nS, nterm, nwit, ndep, store(vm, key, val)))
+//@   assert n != nil && key[d] == n.c && d < len(key) - 1 && old(n.mid) != nil ==> (forall m *node :: { m in repr[n.right] } n.right != nil && m in repr[n.right] ==> tl7(m, nrepr, nS, nterm, nwit, ndep, store(vm, key, val)))
+//@   assert n != nil && key[d] == n.c && d < len(key) - 1 && old(n.mid) != nil ==> (forall m *node :: { m in nrepr[result] } m in nrepr[result] && m != result ==> tl7(m, nrepr, nS, nterm, nwit, ndep, store(vm, key, val)))
+//@   assert n == nil && d >= len(key) - 1 ==> (forall m *node :: { m in nrepr[result] } m in nrepr[result] && m != result ==> tl7(m, nrepr, nS, nterm, nwit, ndep, store(vm, key, val)))
+//@   assert n != nil && key[d] == n.c && d >= len(key) - 1 ==> (forall m *node :: { m in repr[n.left] } n.left != nil && m in repr[n.left] ==> tl7(m, nrepr, nS, nterm, nwit, ndep, store(vm, key, val)))
+//@   assert n != nil && key[d] == n.c && d >= len(key) - 1 ==> (forall m *node :: { m in repr[n.mid] } n.mid != nil && m in repr[n.mid] ==> tl7(m, nrepr, nS, nterm, nwit, ndep, store(vm, key, val)))
+//@   assert n != nil && key[d] == n.c && d >= len(key) - 1 ==> (forall m *node :: { m in repr[n.right] } n.right != nil && m in repr[n.right] ==> tl7(m, nrepr, nS, nterm, nwit, ndep, store(vm, key, val)))
+//@   assert n != nil && key[d] == n.c && d >= len(key) - 1 ==> (forall m *node :: { m in nrepr[result] } m in nrepr[result] && m != result ==> tl7(m, nrepr, nS, nterm, nwit, ndep, store(vm, key, val)))
+//@   assert forall m *node :: { m in nrepr[result] } m in nrepr[result] && m != result ==> tl7(m, nrepr, nS, nterm, nwit, ndep, store(vm, key, val))
+//@   assert n != nil && key[d] < n.c && old(n.left) == nil ==> (result in nrepr[result] && !(nil in nrepr[result]))
+//@   assert n != nil && key[d] < n.c && old(n.left) != nil ==> (result in nrepr[result] && !(nil in nrepr[result]))
+//@   assert n != nil && key[d] > n.c && old(n.right) == nil ==> (result in nrepr[result] && !(nil in nrepr[result]))
+//@   assert n != nil && key[d] > n.c && old(n.right) != nil ==> (result in nrepr[result] && !(nil in nrepr[result]))
+//@   assert n == nil && d < len(key) - 1 ==> (result in nrepr[result] && !(nil in nrepr[result]))
+//@   assert n != nil && key[d] == n.c && d < len(key) - 1 && old(n.mid) == nil ==> (result in nrepr[result] && !(nil in nrepr[result]))
+//@   assert n != nil && key[d] == n.c && d < len(key) - 1 && old(n.mid) != nil ==> (result in nrepr[result] && !(nil in nrepr[result]))
+//@   assert n == nil && d >= len(key) - 1 ==> (result in nrepr[result] && !(nil in nrepr[result]))
+//@   assert n != nil && key[d] == n.c && d >= len(key) - 1 ==> (result in nrepr[result] && !(nil in nrepr[result]))
+//@   assert result in nrepr[result] && !(nil in nrepr[result])
+//@   assert n != nil && key[d] < n.c && old(n.left) == nil ==> (forall k K :: { k in nS[result] } k in nS[result] <==> ((n != nil && k in S[n]) || k == key))
+//@   assert n != nil && key[d] < n.c && old(n.left) != nil ==> (forall k K :: { k in nS[result] } k in nS[result] <==> ((n != nil && k in S[n]) || k == key))
+//@   assert n != nil && key[d] > n.c && old(n.right) == nil ==> (forall k K :: { k in nS[result] } k in nS[result] <==> ((n != nil && k in S[n]) || k == key))
+//@   assert n != nil && key[d] > n.c && old(n.right) != nil ==> (forall k K :: { k in nS[result] } k in nS[result] <==> ((n != nil && k in S[n]) || k == key))
+//@   assert n == nil && d < len(key) - 1 ==> (forall k K :: { k in nS[result] } k in nS[result] <==> ((n != nil && k in S[n]) || k == key))
+//@   assert n != nil && key[d] == n.c && d < len(key) - 1 && old(n.mid) == nil ==> (forall k K :: { k in nS[result] } k in nS[result] <==> ((n != nil && k in S[n]) || k == key))
+//@   assert n != nil && key[d] == n.c && d < len(key) - 1 && old(n.mid) != nil ==> (forall k K :: { k in nS[result] } k in nS[result] <==> ((n != nil && k in S[n]) || k == key))
+//@   assert n == nil && d >= len(key) - 1 ==> (forall k K :: { k in nS[result] } k in nS[result] <==> ((n != nil && k in S[n]) || k == key))
+//@   assert n != nil && key[d] == n.c && d >= len(key) - 1 ==> (forall k K :: { k in nS[result] } k in nS[result] <==> ((n != nil && k in S[n]) || k == key))
+//@   assert forall k K :: { k in nS[result] } k in nS[result] <==> ((n != nil && k in S[n]) || k == key)
+//@   assert n != nil && key[d] < n.c && old(n.left) == nil ==> ((forall o *node :: { o in nrepr[result] } o in nrepr[result] ==> nsubset(nrepr[o], nrepr[result])))
+//@   assert n != nil && key[d] < n.c && old(n.left) != nil ==> ((forall o *node :: { o in nrepr[result] } o in nrepr[result] ==> nsubset(nrepr[o], nrepr[result])))
+//@   assert n != nil && key[d] > n.c && old(n.right) == nil ==> ((forall o *node :: { o in nrepr[result] } o in nrepr[result] ==> nsubset(nrepr[o], nrepr[result])))
+//@   assert n != nil && key[d] > n.c && old(n.right) != nil ==> ((forall o *node :: { o in nrepr[result] } o in nrepr[result] ==> nsubset(nrepr[o], nrepr[result])))
+//@   assert n == nil && d < len(key) - 1 ==> ((forall o *node :: { o in nrepr[result] } o in nrepr[result] ==> nsubset(nrepr[o], nrepr[result])))
+//@   assert n != nil && key[d] == n.c && d < len(key) - 1 && old(n.mid) == nil ==> ((forall o *node :: { o in nrepr[result] } o in nrepr[result] ==> nsubset(nrepr[o], nrepr[result])))
+//@   assert n != nil && key[d] == n.c && d < len(key) - 1 && old(n.mid) != nil ==> ((forall o *node :: { o in nrepr[result] } o in nrepr[result] ==> nsubset(nrepr[o], nrepr[result])))
+//@   assert n == nil && d >= len(key) - 1 ==> ((forall o *node :: { o in nrepr[result] } o in nrepr[result] ==> nsubset(nrepr[o], nrepr[result])))
+//@   assert n != nil && key[d] == n.c && d >= len(key) - 1 ==> ((forall o *node :: { o in nrepr[result] } o in nrepr[result] ==> nsubset(nrepr[o], nrepr[result])))
+//@   assert (forall o *node :: { o in nrepr[result] } o in nrepr[result] ==> nsubset(nrepr[o], nrepr[result]))
+//@   assert n != nil && key[d] < n.c && old(n.left) == nil ==> ((forall o *node :: { o in nrepr[result] } o in nrepr[result] ==> ssubset(nS[o], nS[result])))
+//@   assert n != nil && key[d] < n.c && old(n.left) != nil ==> ((forall o *node :: { o in nrepr[result] } o in nrepr[result] ==> ssubset(nS[o], nS[result])))
+//@   assert n != nil && key[d] > n.c && old(n.right) == nil ==> ((forall o *node :: { o in nrepr[result] } o in nrepr[result] ==> ssubset(nS[o], nS[result])))
+//@   assert n != nil && key[d] > n.c && old(n.right) != nil ==> ((forall o *node :: { o in nrepr[result] } o in nrepr[result] ==> ssubset(nS[o], nS[result])))
+//@   assert n == nil && d < len(key) - 1 ==> ((forall o *node :: { o in nrepr[result] } o in nrepr[result] ==> ssubset(nS[o], nS[result])))
+//@   assert n != nil && key[d] == n.c && d < len(key) - 1 && old(n.mid) == nil ==> ((forall o *node :: { o in nrepr[result] } o in nrepr[result] ==> ssubset(nS[o], nS[result])))
+//@   assert n != nil && key[d] == n.c && d < len(key) - 1 && old(n.mid) != nil ==> ((forall o *node :: { o in nrepr[result] } o in nrepr[result] ==> ssubset(nS[o], nS[result])))
+//@   assert n == nil && d >= len(key) - 1 ==> ((forall o *node :: { o in nrepr[result] } o in nrepr[result] ==> ssubset(nS[o], nS[result])))
+//@   assert n != nil && key[d] == n.c && d >= len(key) - 1 ==> ((forall o *node :: { o in nrepr[result] } o in nrepr[result] ==> ssubset(nS[o], nS[result])))
+//@   assert (forall o *node :: { o in nrepr[result] } o in nrepr[result] ==> ssubset(nS[o], nS[result]))
+//@   assert n != nil && key[d] < n.c && old(n.left) == nil ==> (tshape(result, nrepr))
+//@   assert n != nil && key[d] < n.c && old(n.left) != nil ==> (tshape(result, nrepr))
+//@   assert n != nil && key[d] > n.c && old(n.right) == nil ==> (tshape(result, nrepr))
+//@   assert n != nil && key[d] > n.c && old(n.right) != nil ==> (tshape(result, nrepr))
+//@   assert n == nil && d < len(key) - 1 ==> (tshape(result, nrepr))
+//@   assert n != nil && key[d] == n.c && d < len(key) - 1 && old(n.mid) == nil ==> (tshape(result, nrepr))
+//@   assert n != nil && key[d] == n.c && d < len(key) - 1 && old(n.mid) != nil ==> (tshape(result, nrepr))
+//@   assert n == nil && d >= len(key) - 1 ==> (tshape(result, nrepr))
+//@   assert n != nil && key[d] == n.c && d >= len(key) - 1 ==> (tshape(result, nrepr))
+//@   assert tshape(result, nrepr)
+//@   assert n != nil && key[d] < n.c && old(n.left) == nil ==> (tl1(result, nrepr, nS, nterm, nwit, ndep, store(vm, key, val)))
+//@   assert n != nil && key[d] < n.c && old(n.left) != nil ==> (tl1(result, nrepr, nS, nterm, nwit, ndep, store(vm, key, val)))
+//@   assert n != nil && key[d] > n.c && old(n.right) == nil ==> (tl1(result, nrepr, nS, nterm, nwit, ndep, store(vm, key, val)))
+//@   assert n != nil && key[d] > n.c && old(n.right) != nil ==> (tl1(result, nrepr, nS, nterm, nwit, ndep, store(vm, key, val)))
+//@   assert n == nil && d < len(key) - 1 ==> (tl1(result, nrepr, nS, nterm, nwit, ndep, store(vm, key, val)))
+//@   assert n != nil && key[d] == n.c && d < len(key) - 1 && old(n.mid) == nil ==> (tl1(result, nrepr, nS, nterm, nwit, ndep, store(vm, key, val)))
+//@   assert n != nil && key[d] == n.c && d < len(key) - 1 && old(n.mid) != nil ==> (tl1(result, nrepr, nS, nterm, nwit, ndep, store(vm, key, val)))
+//@   assert n == nil && d >= len(key) - 1 ==> (tl1(result, nrepr, nS, nterm, nwit, ndep, store(vm, key, val)))
+//@   assert n != nil && key[d] == n.c && d >= len(key) - 1 ==> (tl1(result, nrepr, nS, nterm, nwit, ndep, store(vm, key, val)))
+//@   assert tl1(result, nrepr, nS, nterm, nwit, ndep, store(vm, key, val))
+//@   assert n != nil && key[d] < n.c && old(n.left) == nil ==> (tl2(result, nrepr, nS, nterm, nwit, ndep, store(vm, key, val)))
+//@   assert n != nil && key[d] < n.c && old(n.left) != nil ==> (tl2(result, nrepr, nS, nterm, nwit, ndep, store(vm, key, val)))
+//@   assert n != nil && key[d] > n.c && old(n.right) == nil ==> (tl2(result, nrepr, nS, nterm, nwit, ndep, store(vm, key, val)))
+//@   assert n != nil && key[d] > n.c && old(n.right) != nil ==> (tl2(result, nrepr, nS, nterm, nwit, ndep, store(vm, key, val)))
+//@   assert n == nil && d < len(key) - 1 ==> (tl2(result, nrepr, nS, nterm, nwit, ndep, store(vm, key, val)))
+//@   assert n != nil && key[d] == n.c && d < len(key) - 1 && old(n.mid) == nil ==> (tl2(result, nrepr, nS, nterm, nwit, ndep, store(vm, key, val)))
+//@   assert n != nil && key[d] == n.c && d < len(key) - 1 && old(n.mid) != nil ==> (tl2(result, nrepr, nS, nterm, nwit, ndep, store(vm, key, val)))
+//@   assert n == nil && d >= len(key) - 1 ==> (tl2(result, nrepr, nS, nterm, nwit, ndep, store(vm, key, val)))
+//@   assert n != nil && key[d] == n.c && d >= len(key) - 1 ==> (tl2(result, nrepr, nS, nterm, nwit, ndep, store(vm, key, val)))
+//@   assert tl2(result, nrepr, nS, nterm, nwit, ndep, store(vm, key, val))
+//@   assert n != nil && key[d] < n.c && old(n.left) == nil ==> (tl3(result, nrepr, nS, nterm, nwit, ndep, store(vm, key, val)))
+//@   assert n != nil && key[d] < n.c && old(n.left) != nil ==> (tl3(result, nrepr, nS, nterm, nwit, ndep, store(vm, key, val)))
+//@   assert n != nil && key[d] > n.c && old(n.right) == nil ==> (tl3(result, nrepr, nS, nterm, nwit, ndep, store(vm, key, val)))
+//@   assert n != nil && key[d] > n.c && old(n.right) != nil ==> (tl3(result, nrepr, nS, nterm, nwit, ndep, store(vm, key, val)))
+//@   assert n == nil && d < len(key) - 1 ==> (tl3(result, nrepr, nS, nterm, nwit, ndep, store(vm, key, val)))
+//@   assert n != nil && key[d] == n.c && d < len(key) - 1 && old(n.mid) == nil ==> (tl3(result, nrepr, nS, nterm, nwit, ndep, store(vm, key, val)))
+//@   assert n != nil && key[d] == n.c && d < len(key) - 1 && old(n.mid) != nil ==> (tl3(result, nrepr, nS, nterm, nwit, ndep, store(vm, key, val)))
+//@   assert n == nil && d >= len(key) - 1 ==> (tl3(result, nrepr, nS, nterm, nwit, ndep, store(vm, key, val)))
+//@   assert n != nil && key[d] == n.c && d >= len(key) - 1 ==> (tl3(result, nrepr, nS, nterm, nwit, ndep, store(vm, key, val)))
+//@   assert tl3(result, nrepr, nS, nterm, nwit, ndep, store(vm, key, val))
+//@   assert n != nil && key[d] < n.c && old(n.left) == nil ==> (tl4(result, nrepr, nS, nterm, nwit, ndep, store(vm, key, val)))
+//@   assert n != nil && key[d] < n.c && old(n.left) != nil ==> (tl4(result, nrepr, nS, nterm, nwit, ndep, store(vm, key, val)))
+//@   assert n != nil && key[d] > n.c && old(n.right) == nil ==> (tl4(result, nrepr, nS, nterm, nwit, ndep, store(vm, key, val)))
+//@   assert n != nil && key[d] > n.c && old(n.right) != nil ==> (tl4(result, nrepr, nS, nterm, nwit, ndep, store(vm, key, val)))
+//@   assert n == nil && d < len(key) - 1 ==> (tl4(result, nrepr, nS, nterm, nwit, ndep, store(vm, key, val)))
+//@   assert n != nil && key[d] == n.c && d < len(key) - 1 && old(n.mid) == nil ==> (tl4(result, nrepr, nS, nterm, nwit, ndep, store(vm, key, val)))
+//@   assert n != nil && key[d] == n.c && d < len(key) - 1 && old(n.mid) != nil ==> (tl4(result, nrepr, nS, nterm, nwit, ndep, store(vm, key, val)))
+//@   assert n == nil && d >= len(key) - 1 ==> (tl4(result, nrepr, nS, nterm, nwit, ndep, store(vm, key, val)))
+//@   assert n != nil && key[d] == n.c && d >= len(key) - 1 ==> (tl4(result, nrepr, nS, nterm, nwit, ndep, store(vm, key, val)))
+//@   assert tl4(result, nrepr, nS, nterm, nwit, ndep, store(vm, key, val))
+//@   assert n != nil && key[d] < n.c && old(n.left) == nil ==> (tl5(result, nrepr, nS, nterm, nwit, ndep, store(vm, key, val)))
+//@   assert n != nil && key[d] < n.c && old(n.left) != nil ==> (tl5(result, nrepr, nS, nterm, nwit, ndep, store(vm, key, val)))
+//@   assert n != nil && key[d] > n.c && old(n.right) == nil ==> (tl5(result, nrepr, nS, nterm, nwit, ndep, store(vm, key, val)))
+//@   assert n != nil && key[d] > n.c && old(n.right) != nil ==> (tl5(result, nrepr, nS, nterm, nwit, ndep, store(vm, key, val)))
+//@   assert n == nil && d < len(key) - 1 ==> (tl5(result, nrepr, nS, nterm, nwit, ndep, store(vm, key, val)))
+//@   assert n != nil && key[d] == n.c && d < len(key) - 1 && old(n.mid) == nil ==> (tl5(result, nrepr, nS, nterm, nwit, ndep, store(vm, key, val)))
+//@   assert n != nil && key[d] == n.c && d < len(key) - 1 && old(n.mid) != nil ==> (tl5(result, nrepr, nS, nterm, nwit, ndep, store(vm, key, val)))
+//@   assert n == nil && d >= len(key) - 1 ==> (tl5(result, nrepr, nS, nterm, nwit, ndep, store(vm, key, val)))
+//@   assert n != nil && key[d] == n.c && d >= len(key) - 1 ==> (tl5(result, nrepr, nS, nterm, nwit, ndep, store(vm, key, val)))
+//@   assert tl5(result, nrepr, nS, nterm, nwit, ndep, store(vm, key, val))
+//@   assert n != nil && key[d] < n.c && old(n.left) == nil ==> (tl6(result, nrepr, nS, nterm, nwit, ndep, store(vm, key, val)))
+//@   assert n != nil && key[d] < n.c && old(n.left) != nil ==> (tl6(result, nrepr, nS, nterm, nwit, ndep, store(vm, key, val)))
+//@   assert n != nil && key[d] > n.c && old(n.right) == nil ==> (tl6(result, nrepr, nS, nterm, nwit, ndep, store(vm, key, val)))
+//@   assert n != nil && key[d] > n.c && old(n.right) != nil ==> (tl6(result, nrepr, nS, nterm, nwit, ndep, store(vm, key, val)))
+//@   assert n == nil && d < len(key) - 1 ==> (tl6(result, nrepr, nS, nterm, nwit, ndep, store(vm, key, val)))
+//@   assert n != nil && key[d] == n.c && d < len(key) - 1 && old(n.mid) == nil ==> (tl6(result, nrepr, nS, nterm, nwit, ndep, store(vm, key, val)))
+//@   assert n != nil && key[d] == n.c && d < len(key) - 1 && old(n.mid) != nil ==> (tl6(result, nrepr, nS, nterm, nwit, ndep, store(vm, key, val)))
+//@   assert n == nil && d >= len(key) - 1 ==> (tl6(result, nrepr, nS, nterm, nwit, ndep, store(vm, key, val)))
+//@   assert n != nil && key[d] == n.c && d >= len(key) - 1 ==> (tl6(result, nrepr, nS, nterm, nwit, ndep, store(vm, key, val)))
+//@   assert tl6(result, nrepr, nS, nterm, nwit, ndep, store(vm, key, val))
+//@   assert n != nil && key[d] < n.c && old(n.left) == nil ==> (tl7(result, nrepr, nS, nterm, nwit, ndep, store(vm, key, val)))
+//@   assert n != nil && key[d] < n.c && old(n.left) != nil ==> (tl7(result, nrepr, nS, nterm, nwit, ndep, store(vm, key, val)))
+//@   assert n != nil && key[d] > n.c && old(n.right) == nil ==> (tl7(result, nrepr, nS, nterm, nwit, ndep, store(vm, key, val)))
+//@   assert n != nil && key[d] > n.c && old(n.right) != nil ==> (tl7(result, nrepr, nS, nterm, nwit, ndep, store(vm, key, val)))
+//@   assert n == nil && d < len(key) - 1 ==> (tl7(result, nrepr, nS, nterm, nwit, ndep, store(vm, key, val)))
+//@   assert n != nil && key[d] == n.c && d < len(key) - 1 && old(n.mid) == nil ==> (tl7(result, nrepr, nS, nterm, nwit, ndep, store(vm, key, val)))
+//@   assert n != nil && key[d] == n.c && d < len(key) - 1 && old(n.mid) != nil ==> (tl7(result, nrepr, nS, nterm, nwit, ndep, store(vm, key, val)))
+//@   assert n == nil && d >= len(key) - 1 ==> (tl7(result, nrepr, nS, nterm, nwit, ndep, store(vm, key, val)))
+//@   assert n != nil && key[d] == n.c && d >= len(key) - 1 ==> (tl7(result, nrepr, nS, nterm, nwit, ndep, store(vm, key, val)))
+//@   assert tl7(result, nrepr, nS, nterm, nwit, ndep, store(vm, key, val))
+//@   assert n != nil && key[d] < n.c && old(n.left) == nil ==> ((n != nil ==> nsubset(repr[n], nrepr[result])) && forall x *node :: { x in nrepr[result] } x in nrepr[result] && !(n != nil && x in repr[n]) ==> fresh(x) && x != nil)
+//@   assert n != nil && key[d] < n.c && old(n.left) != nil ==> ((n != nil ==> nsubset(repr[n], nrepr[result])) && forall x *node :: { x in nrepr[result] } x in nrepr[result] && !(n != nil && x in repr[n]) ==> fresh(x) && x != nil)
+//@   assert n != nil && key[d] > n.c && old(n.right) == nil ==> ((n != nil ==> nsubset(repr[n], nrepr[result])) && forall x *node :: { x in nrepr[result] } x in nrepr[result] && !(n != nil && x in repr[n]) ==> fresh(x) && x != nil)
+//@   assert n != nil && key[d] > n.c && old(n.right) != nil ==> ((n != nil ==> nsubset(repr[n], nrepr[result])) && forall x *node :: { x in nrepr[result] } x in nrepr[result] && !(n != nil && x in repr[n]) ==> fresh(x) && x != nil)
+//@   assert n == nil && d < len(key) - 1 ==> ((n != nil ==> nsubset(repr[n], nrepr[result])) && forall x *node :: { x in nrepr[result] } x in nrepr[result] && !(n != nil && x in repr[n]) ==> fresh(x) && x != nil)
+//@   assert n != nil && key[d] == n.c && d < len(key) - 1 && old(n.mid) == nil ==> ((n != nil ==> nsubset(repr[n], nrepr[result])) && forall x *node :: { x in nrepr[result] } x in nrepr[result] && !(n != nil && x in repr[n]) ==> fresh(x) && x != nil)
+//@   assert n != nil && key[d] == n.c && d < len(key) - 1 && old(n.mid) != nil ==> ((n != nil ==> nsubset(repr[n], nrepr[result])) && forall x *node :: { x in nrepr[result] } x in nrepr[result] && !(n != nil && x in repr[n]) ==> fresh(x) && x != nil)
+//@   assert n == nil && d >= len(key) - 1 ==> ((n != nil ==> nsubset(repr[n], nrepr[result])) && forall x *node :: { x in nrepr[result] } x in nrepr[result] && !(n != nil && x in repr[n]) ==> fresh(x) && x != nil)
+//@   assert n != nil && key[d] == n.c && d >= len(key) - 1 ==> ((n != nil ==> nsubset(repr[n], nrepr[result])) && forall x *node :: { x in nrepr[result] } x in nrepr[result] && !(n != nil && x in repr[n]) ==> fresh(x) && x != nil)
+//@   assert (n != nil ==> nsubset(repr[n], nrepr[result])) && forall x *node :: { x in nrepr[result] } x in nrepr[result] && !(n != nil && x in repr[n]) ==> fresh(x) && x != nil
+//@   ensures n != nil ==> result == n
+//@   ensures tvalid(result, nrepr, nS, nterm, nwit, ndep, store(vm, key, val)) && ndep[result] == d && nwit[result] == key
+//@   ensures forall k K :: { k in nS[result] } k in nS[result] <==> ((n != nil && k in S[n]) || k == key)
+//@   ensures (n != nil ==> nsubset(repr[n], nrepr[result])) && forall x *node :: { x in nrepr[result] } x in nrepr[result] && !(n != nil && x in repr[n]) ==> fresh(x) && x != nil
+//@   ensures toutside(n, repr, S, term, wit, dep, nrepr, nS, nterm, nwit, ndep)
+//@   ensures forall x *node :: { x.c } old(allocated(x)) ==> x.c == old(x.c)
+//@   call put#1 ghost repr = repr; S = S; term = term; wit = wit; dep = dep; vm = vm
+//@   call put#2 ghost repr = repr; S = S; term = term; wit = wit; dep = dep; vm = vm
+//@   call put#3 ghost repr = repr; S = S; term = term; wit = wit; dep = dep; vm = vm
+// END put
+
+// ---------------------------------------------------------------- the public methods
+
+//@ pred trieInv(t *Trie, repr map[*node]set[*node], S map[*node]set[K], term map[*node]K, wit map[*node]K, dep map[*node]int, vm map[K]V) := ErrorNotFound != nil && t.n >= 0 && (t.root != nil ==> tvalid(t.root, repr, S, term, wit, dep, vm) && dep[t.root] == 0)
+//@ pred isprefix(k K, q K) := len(k) <= len(q) && agree(k, q, len(k))
+
+//@ func trie.newNode
+//@   inline
+
+//@ func trie.New
+//@   property C09 C01
+//@   ensures result != nil && fresh(result) && result.root == nil && result.n == 0 && result.q == q
+
+//@ func (*trie.Trie).Size
+//@   property C09 C01 C02
+//@   lock t.mu : none
+//@   ghost-param repr map[*node]set[*node]
+//@   ghost-param S map[*node]set[K]
+//@   ghost-param term map[*node]K
+//@   ghost-param wit map[*node]K
+//@   ghost-param dep map[*node]int
+//@   ghost-param vm map[K]V
+//@   ensures result == t.n
+
+//@ func (*trie.Trie).Get
+//@   property C09 C01 C02
+//@   lock t.mu : none
+//@   ghost-param repr map[*node]set[*node]
+//@   ghost-param S map[*node]set[K]
+//@   ghost-param term map[*node]K
+//@   ghost-param wit map[*node]K
+//@   ghost-param dep map[*node]int
+//@   ghost-param vm map[K]V
+//@   requires trieInv(t, repr, S, term, wit, dep, vm)
+//@   ensures ok <==> (len(key) > 0 && t.root != nil && key in S[t.root])
+//@   ensures ok ==> v == vm[key]
+//@   ensures !ok ==> v == zero
+//@   call get#1 ghost repr = repr; S = S; term = term; wit = wit; dep = dep; vm = vm
+
+//@ func (*trie.Trie).Contains
+//@   property C09 C01 C02
+//@   lock t.mu : none
+//@   ghost-param repr map[*node]set[*node]
+//@   ghost-param S map[*node]set[K]
+//@   ghost-param term map[*node]K
+//@   ghost-param wit map[*node]K
+//@   ghost-param dep map[*node]int
+//@   ghost-param vm map[K]V
+//@   requires trieInv(t, repr, S, term, wit, dep, vm)
+//@   ensures result <==> (len(key) > 0 && t.root != nil && key in S[t.root])
+//@   call Get#1 ghost repr = repr; S = S; term = term; wit = wit; dep = dep; vm = vm
+
+//@ func (*trie.Trie).Put
+//@   property C09 C01 C02
+//@   lock t.mu : none
+//@   ghost-param repr map[*node]set[*node]
+//@   ghost-param S map[*node]set[K]
+//@   ghost-param term map[*node]K
+//@   ghost-param wit map[*node]K
+//@   ghost-param dep map[*node]int
+//@   ghost-param vm map[K]V
+//@   ghost nrepr map[*node]set[*node] = repr
+//@   ghost nS map[*node]set[K] = S
+//@   ghost nterm map[*node]K = term
+//@   ghost nwit map[*node]K = wit
+//@   ghost ndep map[*node]int = dep
+//@   requires len(key) > 0 && trieInv(t, repr, S, term, wit, dep, vm)
+//@   modifies t.root, t.n, all trie.node.left, all trie.node.mid, all trie.node.right, all trie.node.isValid, all trie.Item.val
+//@   ensures trieInv(t, nrepr, nS, nterm, nwit, ndep, store(vm, key, val)) && t.root != nil
+//@   ensures forall k K :: { k in nS[t.root] } k in nS[t.root] <==> ((old(t.root) != nil && k in S[old(t.root)]) || k == key)
+//@   ensures t.n == old(t.n) + ((old(t.root) != nil && key in S[old(t.root)]) ? 0 : 1)
+//@   call get#1 ghost repr = repr; S = S; term = term; wit = wit; dep = dep; vm = vm
+//@   call put#1 ghost repr = repr; S = S; term = term; wit = wit; dep = dep; vm = vm
+//@   release-views repr = nrepr; S = nS; term = nterm; wit = nwit; dep = ndep; vm = store(vm, key, val)
+
+//@ func (*trie.Trie).LongestPrefix
+//@   property C09 C01
+//@   lock t.mu : none
+//@   ghost-param repr map[*node]set[*node]
+//@   ghost-param S map[*node]set[K]
+//@   ghost-param term map[*node]K
+//@   ghost-param wit map[*node]K
+//@   ghost-param dep map[*node]int
+//@   ghost-param vm map[K]V
+//@   ghost gl int = 0
+//@   ghost lk K
+//@   requires trieInv(t, repr, S, term, wit, dep, vm)
+//@   ensures len(query) == 0 ==> result1 != nil && len(result0) == 0
+//@   ensures len(query) > 0 ==> result1 == nil && 0 <= gl && gl <= len(query) && len(result0) == gl && agree(result0, query, gl)
+//@   ensures len(query) > 0 && gl > 0 ==> t.root != nil && lk in S[t.root] && streq(result0, lk)
+//@   ensures len(query) > 0 ==> forall k K :: { k in S[t.root] } t.root != nil && k in S[t.root] && isprefix(k, query) ==> len(k) <= gl
+//@ loop 1
+//@   ghost gl = length
+//@   ghost lk = term[pre(x)] when length > pre(length)
+//@   invariant 0 <= i && i <= len(query) && 0 <= length && length <= i && gl == length
+//@   invariant x != nil ==> t.root != nil && x in repr[t.root] && dep[x] == i && agree(query, wit[x], i)
+//@   invariant length > 0 ==> t.root != nil && lk in S[t.root] && len(lk) == length && agree(lk, query, length)
+//@   invariant forall k K :: { k in S[t.root] } t.root != nil && k in S[t.root] && isprefix(k, query) && len(k) > length ==> x != nil && k in S[x]
+
+// The queue handed to New is a dependency of the caller's choosing. Assumed of it (not verified here): its methods
+// do not touch the trie. (queue.Queue and queue.LQueue, verified under C05, only touch their own fields.)
+//@ func (trie.Queuer).Clear
+//@   ensures true
+//@ func (trie.Queuer).Enqueue
+//@   ensures true
+
+//@ func (*trie.node).collect
+//@   property C09 C01
+//@   opt nil-receiver
+//@   lock t.mu : R
+//@   requires t != nil && ErrorNotFound != nil
+//@   ensures true
+
+//@ func (*trie.Trie).Keys
+//@   property C09 C01
+//@   lock t.mu : none
+//@   ghost-param repr map[*node]set[*node]
+//@   ghost-param S map[*node]set[K]
+//@   ghost-param term map[*node]K
+//@   ghost-param wit map[*node]K
+//@   ghost-param dep map[*node]int
+//@   ghost-param vm map[K]V
+//@   requires ErrorNotFound != nil
+//@   ensures true
+
+//@ func (*trie.Trie).StartsWith
+//@   property C09 C01
+//@   lock t.mu : none
+//@   ghost-param repr map[*node]set[*node]
+//@   ghost-param S map[*node]set[K]
+//@   ghost-param term map[*node]K
+//@   ghost-param wit map[*node]K
+//@   ghost-param dep map[*node]int
+//@   ghost-param vm map[K]V
+//@   requires trieInv(t, repr, S, term, wit, dep, vm)
+//@   ensures len(prefix) == 0 ==> result1 != nil
+//@   ensures len(prefix) > 0 ==> result1 == nil
+//@   call get#1 ghost repr = repr; S = S; term = term; wit = wit; dep = dep; vm = vm
+
+//@ guards trie.Trie.mu : root, n, all trie.node, all trie.Item
+//@ lockinv trie.Trie : trieInv(self, repr, S, term, wit, dep, vm)
